@@ -12,2250 +12,1020 @@ Definition show_fres (r : fres) : string :=
   end.
 Definition check (rs : list rune) : string := digest (show_fres (format_res rs)).
 Definition full (rs : list rune) : string := show_fres (format_res rs).
-Eval vm_compute in ("<<<M822>>>" ++ check (runes_of_ascii "packet u { @tag( 007 )
-    @calculatedFrom(
-    """"
-    ) match i64_ as roots{ [
-// `tick` ""quote"" 'q'
-// packet A { u8 x, }
-""`tick`"" ,
-""1"" , 0,
-3
-// " ++ [27880; 37322]%N ++ runes_of_ascii "
-// c
-] :
-rootA
-//x
-// c
-00:
-pack [ 0123456789, 0123456789 , ""1""
-    ,	255 ]
-: /// triple
-msg_type ,
-10
-    :chars ""it's"": o
-, /// triple
-} ,
-BodyLength{ char[ 255 // " ++ [128512]%N ++ runes_of_ascii " emoji
-] metadata`
-` ,
-} , options1 { match  asx
-    // c
-    as packetx{ ""abc""/// triple
-: u128 [ 3
-,
-4294967296 ,	"""" ,
-""" ++ [28040; 24687]%N ++ runes_of_ascii """,
-    4294967296 ]
-: leftPad , 0 :
-Header , """ ++ [233]%N ++ runes_of_ascii "t" ++ [233]%N ++ runes_of_ascii """
-:  T , } ,
-repeat char[] Z9_ `{ , }` ,
-    }
-,
-@calculatedFrom( ""packet"" ) @calculatedFrom(
-""x y"")@tag(255  ) leftPad
-{ repeat leftPad
-{
-    float32 falsey @lengthOf(falsey ) `a\` ,	zchar[ 0 ] matchKey ,zchar[ 4294967296
-    ] a1, match packetx	as // @lengthOf(
-u {  [ 00 ,	""abc"" , """ ++ [233]%N ++ runes_of_ascii "t" ++ [233]%N ++ runes_of_ascii """ ,00,// " ++ [27880; 37322]%N ++ runes_of_ascii "
-""a\\""	, ""{,}"" ]
-    : BodyLength ,""" ++ [233]%N ++ runes_of_ascii "t" ++ [233]%N ++ runes_of_ascii """
-    /// triple
-    :asx  , [
-    ""a	b"" ,007 ]
-    :
-body
-    /// triple
-    ,[ 00 ,0123456789 ] :
-crc
+Eval vm_compute in ("<<<M1841>>>" ++ check (runes_of_ascii "// @lengthOf(
+MetaData zchar {
+    string o `crlf
+    line`,
+    char[] pack `crlf
+    line`,
+    char[] Foo,
 }
-    ,} , }
-    , repeat uint8x o
-`doc` , @tag(
-65535 )u16 Logon  @lengthOf( uint8x	)
-    `a\`, f32a
-    { repeat  char[]
-matchKey// " ++ [128512]%N ++ runes_of_ascii " emoji
-`
-` , zchar[ 4294967296 ] i64_,
-    // packet A { u8 x, }
-    repeat lengthOf {	repeat i16 matchKey	, u8 falsey ,
-i32 Pad @lengthOf(u8x )
-    `` ,
-    charz
-`crlf
-line`,}
-, packetx {int64 trueish
-, char[42	]  u @lengthOf(u )`// not a comment`,repeat
-char[ 1 ]i8i8 ,
-    match x_y_z as u8x {
-    [
-    ""\n""
-//
-// " ++ [27880; 37322]%N ++ runes_of_ascii "
-] : calculatedFrom } , } ,
-    } , @leftPad ( '0'
-    //x
-    )
-    As @calculatedFrom(
-""it's""
-)	, @calculatedFrom(""CRC32""
-)x_y_z
-@lengthOf( crc
-    ) , @leftPad
-('0'	) @calculatedFrom( ""`tick`"" )@tag( 10)char[ 42 ]Z9_ @calculatedFrom(""abc"" ) // " ++ [128512]%N ++ runes_of_ascii " emoji
-,}
-    MetaData
-//	t
-/// triple
-repeatCount // trailing space 
-{ i8
-    u `tab	here`, char[ 255
-]
-    u,
-    // @lengthOf(
-    u32
-    msg_type`doc`
-,i64_ _x	,
-}
-options  {
-    repeatCount=255 ;x_y_z = ' ' ; charz = uint8 ; Packet = false BodyLength=true
-;
-    } options { asx
-    // @lengthOf(
-    =""" ++ [128512]%N ++ runes_of_ascii """uint8x =char[  4294967296 ]
-// " ++ [27880; 37322]%N ++ runes_of_ascii "
-// a // b
-; u = '0' }
-// trailing space 
-")).
-Eval vm_compute in ("<<<M95>>>" ++ check (runes_of_ascii "MetaData chars {} packet lengthOf
-{ @lengthOf(_x )uint16 /// triple
-Z9_`" ++ [28040; 24687; 31867; 22411]%N ++ runes_of_ascii "`, repeat BodyLength{ repeat
-    u8x zchar  , } ,a1	,
-    // " ++ [27880; 37322]%N ++ runes_of_ascii "
-    T @calculatedFrom( ""\" ++ [233]%N ++ runes_of_ascii """)
-, match //	t
-calculatedFrom
-    as string_
-    // " ++ [27880; 37322]%N ++ runes_of_ascii "
-    { """ ++ [233]%N ++ runes_of_ascii "t" ++ [233]%N ++ runes_of_ascii """
-    :// `tick` ""quote"" 'q'
-_x // " ++ [128512]%N ++ runes_of_ascii " emoji
-, ""a	b""
-    : zchar [ ""x y"",
-    10
-    ,	""abc""
-,
-""packet""
-, // c
-""{,}"" //
-,00] :  u128 ,""abc"":x_y_z
-    ,  """ ++ [233]%N ++ runes_of_ascii "t" ++ [233]%N ++ runes_of_ascii """
-    : // packet A { u8 x, }
-packetx
-} // a // b
-, zchar[
-    1 ]// " ++ [128512]%N ++ runes_of_ascii " emoji
-A
-    // " ++ [27880; 37322]%N ++ runes_of_ascii "
-    @lengthOf( float
-    // `tick` ""quote"" 'q'
-    ) `say ""hi""`
-    // trailing space 
-    , repeat f32 asx
-// " ++ [27880; 37322]%N ++ runes_of_ascii "
-// " ++ [128512]%N ++ runes_of_ascii " emoji
-,
-    // " ++ [128512]%N ++ runes_of_ascii " emoji
-    @rightPad
-    ( ' ' // a // b
-)	char[] msg_type `say ""hi""`,
-} packet Pad
-// " ++ [27880; 37322]%N ++ runes_of_ascii "
-// " ++ [27880; 37322]%N ++ runes_of_ascii "
-{ As @lengthOf( rootA )
-`say ""hi""` , repeat
-    _x // trailing space 
-{
-    Logon
-Foo, // `tick` ""quote"" 'q'
-falsey
-MetaDataX ,
-    }  ,msg_type
-    // trailing space 
-    roots `line1
-line2`,pack pack , chars	`crlf
-line` ,@lengthOf(lengthOf) match lengthOf
-    as o { 3
-    : falsey
-    , } ,}packet // trailing space 
-o {// packet A { u8 x, }
-i64_`{ , }` ,
-match MetaDataX as Foo { """ ++ [233]%N ++ runes_of_ascii "t" ++ [233]%N ++ runes_of_ascii """ :
-    leftPad ,
-[	00 ] : f32a
-[ ""`tick`"",
-    0123456789
-]
-: float ,
-""it's"" : pack
-, ""`tick`"" :
-charz } ,
-options1
-    leftPad ,// packet A { u8 x, }
-string body //
-, @calculatedFrom(
-""{,}""  )As
-    //	t
-    , // " ++ [128512]%N ++ runes_of_ascii " emoji
-match u as
-    Packet
-    {
-    ""it's"" :
-_x	, 10 : BodyLength , ""\n"" :
-float 4294967296 :falsey , 007 :	charz
-,00 :stringy , },  repeat string_ ,
-}root packet
-Foo	{ repeat
-    // " ++ [27880; 37322]%N ++ runes_of_ascii "
-    char[	7 ] lengthOf `
-`
-    ,
-//	t
-//x
-@lengthOf( Packet ) repeat // `tick` ""quote"" 'q'
-i32 float , options1 _x	`{ , }`
-, }
-")).
-Eval vm_compute in ("<<<M821>>>" ++ check (runes_of_ascii "
+
 options {
-    msg_type
-    = ""{,}"" ;
-    asx =true ; trueish = ""// no comment""
-Pad =
-""\n"";
-    metadata =uint64
-;
-    }root // @lengthOf(
-packet
-// @lengthOf(
-// c
-int{  @tag(  0123456789) @tag( //	t
-00
-) @calculatedFrom(
-""packet"" )zchar[4294967296
-    ] leftPad `line1
-line2` , @calculatedFrom( ""x y"")
-falsey
-@calculatedFrom( ""x y""
-//
-// `tick` ""quote"" 'q'
-) ,
-repeat uint8 Packet ,@tag(
-4294967296 ) u8x ,
-    repeat	char[ 42
-] Logon `it's` , int16
-falsey@calculatedFrom( ""it's""
-)
-    //
-    ,
-msg_type
-@lengthOf(leftPad
-)
-    /// triple
-    `" ++ [28040; 24687; 31867; 22411]%N ++ runes_of_ascii "` , match string_ as	charz
-    {
-    //
-    ""it's"" :Foo ,0123456789:
-calculatedFrom ""// no comment""
-    : T,
-[
-    ""// no comment""
-, 65535  , ""a\\""
-    , ""abc"",007
-,// " ++ [27880; 37322]%N ++ runes_of_ascii "
-""// no comment"" ,  4294967296	]  :
-Z9_
+    stringy = ""`tick`""
 }
-    // packet A { u8 x, }
-    ,float64  charz@lengthOf( Z9_ ) `a\`,
-} packet a1 { } packet T  { } packet i64_	{ repeat zchar[65535
-]
-Logon, @calculatedFrom( ""CRC32"" // " ++ [128512]%N ++ runes_of_ascii " emoji
-)repeat string stringy `crlf
-line` ,
-    repeat char[ 007 ] leftPad ,
-@calculatedFrom(
-    //
-    ""abc""
-    ) string calculatedFrom `two words`, len {
-    // `tick` ""quote"" 'q'
-    float64 lengthOf `" ++ [28040; 24687; 31867; 22411]%N ++ runes_of_ascii "`
-// " ++ [27880; 37322]%N ++ runes_of_ascii "
-// packet A { u8 x, }
-, } ,A
-    @calculatedFrom(""abc""
-) `line1
-line2` ,
-    zchar[  10] charz `" ++ [28040; 24687; 31867; 22411]%N ++ runes_of_ascii "` ,repeat Packet ,
-    // packet A { u8 x, }
-    string
-As	@lengthOf( roots ) , @tag( 7
-) Packet chars ,
-//x
-// trailing space 
-}
-")).
-Eval vm_compute in ("<<<M1331>>>" ++ check (runes_of_ascii "packet//x
-Logon{@tag( 255 ) match roots as u128{  ""`tick`"" //x
-:
-matchKey
-    ,	1 : Foo} ,
-@tag( 65535 ) @lengthOf(	charz ) @calculatedFrom(
-""// no comment"" ) i8 trueish ,
-    float32 o  @lengthOf( i8i8 )
-,
-    @rightPad ( ' ' ) u8x  `two words`,
-repeat u64 i8i8 ,  match
-    zchar as x_y_z { """ ++ [128512]%N ++ runes_of_ascii """ : charz , } // @lengthOf(
-,@lengthOf(
-repeatCount)// " ++ [128512]%N ++ runes_of_ascii " emoji
-u32 falsey `// not a comment` , } options // @lengthOf(
-{ // " ++ [128512]%N ++ runes_of_ascii " emoji
-falsey=""" ++ [128512]%N ++ runes_of_ascii """ ;
-packetx = """ ++ [233]%N ++ runes_of_ascii "t" ++ [233]%N ++ runes_of_ascii """
-// @lengthOf(
-// @lengthOf(
-u128// " ++ [128512]%N ++ runes_of_ascii " emoji
-= """" ;options1
-= true
-; // packet A { u8 x, }
-} options{ float =""a	b"" ; packetx =// `tick` ""quote"" 'q'
-true calculatedFrom =
-u64
-    ;Packet =
-'\x00' ;
-    BodyLength=
-    false //	t
-; } MetaData falsey
-{// " ++ [27880; 37322]%N ++ runes_of_ascii "
-BodyLength Logon`line1
-line2`
-,
-    zchar chars `a\` , repeatCount
-// " ++ [27880; 37322]%N ++ runes_of_ascii "
-// `tick` ""quote"" 'q'
-BodyLength , zchar
-i8i8 ,
-    }packet	packetx { repeat
-    int8
-Logon
-    ,
-    @calculatedFrom( ""abc"" ) match Logon as	BodyLength {	65535 /// triple
-:pack ,// a // b
-[ ""CRC32""
-    , ""it's""
-, 4294967296 ,
-""CRC32"" ,
-    ""a\\"",""`tick`"",
-255, 007
-]
-    // packet A { u8 x, }
-    : matchKey
-, [255
-]  : falsey
-, } , repeat Packet // c
-`tab	here` ,
-    @lengthOf(
-    charz
-)zchar[ 42] tag@calculatedFrom( ""// no comment"" ) `
-`	, uint64 //	t
-u8x
-`" ++ [28040; 24687; 31867; 22411]%N ++ runes_of_ascii "` , }
-")).
-Eval vm_compute in ("<<<M255>>>" ++ check (runes_of_ascii "/// triple
-MetaData Logon
-    {i16 body
-, } /// triple
-root packet
-Z9_ {	_x
-// packet A { u8 x, }
-// " ++ [128512]%N ++ runes_of_ascii " emoji
-{
-Foo {
-    matchKey { repeat
-    leftPad body ,
-    u128 MetaDataX ,
-    match uint8x as BodyLength{ ""abc"": int , [42
-    ,
-    10
-    ]: Z9_ , 1 :// a // b
-i64_ 0123456789 :
-u ,  ""a\""b""
-: chars , }
-    ,
-repeat //	t
-int32
-//x
-//	t
-packetx
-    , } ,  match zchar as u128
-    // @lengthOf(
-    { 007 //x
-: msg_type	""a\\"" : asx, """":T
-, 007 : charz, ""abc"":
-    /// triple
-    matchKey , ""x y"":  string_ ,
-}
-, repeat  zchar[
-0123456789 ]// trailing space 
-msg_type `doc` ,}, match Z9_ as MetaDataX
-{	[ 0 , ""1""
-    ]:
-    // packet A { u8 x, }
-    uint8x [ 65535 ,
-//
-//	t
-""""] :
-    x_y_z
-,""x y"": falsey ,
-65535
-:
-packetx, ""// no comment"": falsey [ 4294967296 , ""a\""b"" ,
-    ""\n"" , ""a\""b""	,
-    255 ]: charz	, } // @lengthOf(
-,
-}
-,
-    chars
-    int `u8 x,`
-    , @tag(65535)
-char[] Header `{ , }` , @tag(
-    255
-) match	repeatCount as
-    A { [4294967296 ,""\" ++ [233]%N ++ runes_of_ascii """ , ""packet"" , // packet A { u8 x, }
-42 ,
-007 , """ ++ [128512]%N ++ runes_of_ascii """, ""a\""b"" ]// c
-:
-    lengthOf , ""// no comment""
-:
-a1 ,""\n"" : MetaDataX//x
-3 // a // b
-:
-// @lengthOf(
-// packet A { u8 x, }
-body	, } , }
-")).
-Eval vm_compute in ("<<<M4277>>>" ++ check (runes_of_ascii "packet calculatedFrom {
-    Pad {
-        match tag as metadata {
-            ""x y"" : tag,
-            10 : Packet,
-            [
-                007, ""it's"", 0, 3, 4294967296,
-                """ ++ [28040; 24687]%N ++ runes_of_ascii """, ""\n"", ""a	b""
-            ] : Logon,
-            3 : A,
-            [0123456789] : leftPad,
-        },
-    },//	t
+
+packet leftPad {
+    packetx @lengthOf(roots),
     @lengthOf(int)
-    repeat char[255] msg_type `" ++ [28040; 24687; 31867; 22411]%N ++ runes_of_ascii "`,
-    Pad @calculatedFrom(""" ++ [233]%N ++ runes_of_ascii "t" ++ [233]%N ++ runes_of_ascii """),
-    @tag(65535)
-    f32 u128 `// not a comment`,
-    zchar[3] leftPad `" ++ [28040; 24687; 31867; 22411]%N ++ runes_of_ascii "`,
-    @rightPad(' ')
-    @lengthOf(roots)
-    /// triple
-    repeat char[10] leftPad,
-    Logon charz `line1
-        line2`,
-}
-
-MetaData _x {
-    string Z9_ `tab	here`,
-    u _x ``,
-    zchar[10] asx `line1
-        line2`,
-    u128 Logon,
-    char[7] u128,
-    options1 repeatCount,
-}
-
-options {
-}
-
-packet body {
-    // `tick` ""quote"" 'q'
-    @calculatedFrom(""a	b"")
-    char[] len,
-    @lengthOf(Packet)
-    match zchar as i64_ {
-        [
-            ""x y"", """ ++ [28040; 24687]%N ++ runes_of_ascii """, 3, 65535, ""`tick`"",
-            ""{,}"", ""\" ++ [233]%N ++ runes_of_ascii """, 42
-        ] : i64_,
-    },
-    matchKey chars,
-    @lengthOf(x_y_z)
-    @tag(00)
-    a1 @lengthOf(repeatCount),
-}")).
-Eval vm_compute in ("<<<M4063>>>" ++ check (runes_of_ascii "
-options
-
-    {
-StringPrefixLenType =
-u8;
-ArrayPrefixLenType = u8
-;FixedStringPadFromLeft
-
-=true ; FixedStringPadChar=
-' ' 
-; }
-packet
-
-Logout {  repeat	string
-	Px 
-,
-    repeat
-    string	seqNo
-,
-
-InMsgkind64
-{  uint16	OrderId
-
-,	char[]
-count
-    ,repeat
-
-    i32 venue
-    ,} , }packet Heartbeat	{
-float32
-tag7	,repeat 
-InPrice50
-{	repeat char[
-    5 ] 
-lastPx	,
-InRef42
-{
-    u8 pad0 
-,
-	}
-    ,  uint32
-    Acct 
-,
-
-repeat
-Logout
-, repeat 
-char[
-
-    5
-	]
-    Qty
-    ,
-
-} ,repeat  InSeqno30 {
-repeat	Logout
-
-    ,
-}
-	,
-@leftPad(
-
-    '0' ) char[
-    12	]
-
-Acct,
-	char[]
-Side2
-
-    , repeat
-	string msgKind
-,
-}	packet
-    Ack  {  Heartbeat 
-, char[	8 ]  seqNo	,
-	float64
-clOrdID
-
-,
-
-    }
-
-packet 
-Trade	{ char[]
-    OrderId
-    , 
-f64	Side2	,	zchar[
-    8
-	]f1 ,
-	string
-	Qty
-
-,
-float64 
-seqNo
-
-, 
-repeat
-
-Logout,  }
-	packet Order{ f32	OrderId 
-,  repeat
-    u8
-
-    x,
-Ack 
-,
-    zchar[ 
-7]
-Note  ,
-	}
-root  packet
-    Logon
-{ @rightPad( '\x00'
-    )
-
-    char[
-
-9
-]
-
-    f1,
-    }
-
-")).
-Eval vm_compute in ("<<<M903>>>" ++ check (runes_of_ascii "MetaData falsey {
-    i8 Logon,// packet A { u8 x, }
-len
-    metadata
-    `doc` ,
-} MetaData // " ++ [27880; 37322]%N ++ runes_of_ascii "
-Foo{ char[	65535]  calculatedFrom `
-`
-// a // b
-//x
-, matchKey// c
-zchar ,	u stringy `
-` ,
-    MetaDataX u `say ""hi""` ,// c
-} packet
-msg_type {@lengthOf(Z9_)
-//x
-//x
-@lengthOf(
-x
-)
-    @tag( 0
-    ) calculatedFrom
-    {
-msg_type@calculatedFrom(""CRC32"") `say ""hi""` ,repeat	matchKey { repeat
-    T
-{ char[ // " ++ [27880; 37322]%N ++ runes_of_ascii "
-1 ] T ,
-repeatCount `line1
-line2`
-    ,match	int as x {""packet"" //x
-:  options1 ,
-00
-: calculatedFrom 00 : falsey , } , } ,
-    char[] uint8x
-, match Packet as falsey {
-7:// packet A { u8 x, }
-f32a , // a // b
-10:
-u
-, 1
-:Header ,
-[ ""packet"" // " ++ [27880; 37322]%N ++ runes_of_ascii "
-, 0
-// " ++ [27880; 37322]%N ++ runes_of_ascii "
-// @lengthOf(
-,""a	b"" ]
-:o
-0123456789:
-    chars}
-    , zchar[ 65535 ]
-Foo ,} ,
-}
-    , }// packet A { u8 x, }
-root packet u//x
-{ @tag(
-007
-) i32// trailing space 
-stringy @lengthOf(
-    //
-    a1) `{ , }` , } MetaData
-string_ { uint64 chars
-`crlf
-line` ,
-    char[ // @lengthOf(
-3
-    ] u8x `a\` , }")).
-Eval vm_compute in ("<<<M101>>>" ++ check (runes_of_ascii "MetaData
-    asx
-{ }
-    options{
-body =
-//x
-// @lengthOf(
-char[] ;// @lengthOf(
-repeatCount =true ;
-    packetx= ""a\""b""; float
-=
-""x y"" ; zchar
-    // @lengthOf(
-    = ""\" ++ [233]%N ++ runes_of_ascii """ ; } MetaData _x{
-u16 falsey  `` , } root packet
-    metadata {  }	packet Foo { repeat
-    // trailing space 
-    u128
-    , @tag(// trailing space 
-7
-) uint16
-MetaDataX
-    , @tag(1 )
-    /// triple
-    falsey `say ""hi""` , @rightPad ( //	t
-) @tag(3 ) u , @lengthOf( roots// " ++ [128512]%N ++ runes_of_ascii " emoji
-) match body as repeatCount
-{ ""CRC32"" // " ++ [27880; 37322]%N ++ runes_of_ascii "
-: asx  , 42	:  msg_type
-} ,// packet A { u8 x, }
-stringy {repeat char[
-    // c
-    3
-] uint8x ,	match
-Logon
-as	A{ ""abc"" :i8i8 , }  ,match BodyLength as len
-    { [0123456789 ,
-//
-// @lengthOf(
-007
-    ,4294967296,""{,}""
-]:// " ++ [128512]%N ++ runes_of_ascii " emoji
-Foo , } //	t
-, } , @leftPad ( '0'  ) uint8x
-@lengthOf(i8i8) ,//	t
-_x
-    {repeat x  `line1
-line2` , }, @tag( 42 )
-falsey
-    // trailing space 
-    u128 // trailing space 
-, int64 MetaDataX ,}
-")).
-Eval vm_compute in ("<<<M1349>>>" ++ check (runes_of_ascii "  options
-//
-// packet A { u8 x, }
-{ MetaDataX  = '0'
-; Logon=
-    false ; int//	t
-='0' _x
-=
-// trailing space 
-//	t
-""x y""
-//	t
-/// triple
-;}
-    packet
-tag { @tag( /// triple
-10)repeat msg_type ,  match x
-    as
-Foo
-{ ""x y"": body  ,  } , @tag(	0
-)repeat char[
-    7 ] options1	, repeat falsey
-{ int8  options1
-,	i8i8
-`crlf
-line`
-    ,
-u16 // " ++ [27880; 37322]%N ++ runes_of_ascii "
-f32a @calculatedFrom( ""// no comment"" // @lengthOf(
-) , } , @calculatedFrom( ""{,}""// " ++ [128512]%N ++ runes_of_ascii " emoji
-) uint32 repeatCount, msg_type @calculatedFrom( ""it's"" )//
-`crlf
-line` , @tag(// `tick` ""quote"" 'q'
-00) match T as options1
-{ 4294967296 :
-repeatCount  , }
-,
-// @lengthOf(
-//	t
-}
-    // trailing space 
-    MetaData msg_type  {Foo u , char[] Pad
-`
-`
-    , BodyLength As
-,  char[ 007 ] calculatedFrom /// triple
-`a\`
-,
-    //x
-    }  MetaData msg_type {}packet trueish  {T
-    // a // b
-    @lengthOf(
-    pack ) `crlf
-line` ,
-}
-")).
-Eval vm_compute in ("<<<M438>>>" ++ check (runes_of_ascii "root packet len { tag	repeatCount , crc
-{
-    As { T zchar , _x `line1
-line2` , f64 x_y_z ,
-    match packetx  as
-    calculatedFrom
-{ [
-""// no comment"" ,  ""packet"" ]:
-    charz , }// a // b
-, }
-    ,
-} // " ++ [27880; 37322]%N ++ runes_of_ascii "
-,
-zchar[7
-] i64_ `
-`  ,
-// " ++ [128512]%N ++ runes_of_ascii " emoji
-// c
-@calculatedFrom(
-""{,}"" )stringy
-@calculatedFrom( """ ++ [233]%N ++ runes_of_ascii "t" ++ [233]%N ++ runes_of_ascii """ ),match metadata as Z9_
-{ ""a\\"" :
-Logon 7 : Pad ,
-    3
-    :
-    // a // b
-    Foo , [
-    10
-] :
-msg_type ,
-//	t
-// `tick` ""quote"" 'q'
-""\n"" : x
-}, match trueish as pack{ [
-    // trailing space 
-    ""a	b""
-    , 4294967296
-    ,
-""" ++ [233]%N ++ runes_of_ascii "t" ++ [233]%N ++ runes_of_ascii """ , 42, ""{,}""
-// " ++ [27880; 37322]%N ++ runes_of_ascii "
-// c
-, 7	,	255 ] : Logon , // `tick` ""quote"" 'q'
-[
-    ""{,}""
-    ,
-42	,
-00 ] :
-    /// triple
-    crc, 42 : A
-    ,
-""" ++ [28040; 24687]%N ++ runes_of_ascii """ : asx	,[ """ ++ [128512]%N ++ runes_of_ascii """ ,65535	,
-    ""`tick`"" ,
-7 , ""x y"" , ""CRC32""
-    // " ++ [27880; 37322]%N ++ runes_of_ascii "
-    ,
-""" ++ [28040; 24687]%N ++ runes_of_ascii """ //
-]
-// `tick` ""quote"" 'q'
-// @lengthOf(
-: BodyLength ,
-} , }")).
-Eval vm_compute in ("<<<M104>>>" ++ check (runes_of_ascii "
-root packet stringy{ repeat u16
-falsey `
-`
-, u16 Pad,
-    @lengthOf( // packet A { u8 x, }
-x)Logon { repeat
-zchar[65535
-    ]
-Packet`it's` , } ,}packet len {@leftPad( ) repeat metadata { match asx
-    as asx{""a\\"" :
-f32a ,}
-    ,}// " ++ [128512]%N ++ runes_of_ascii " emoji
-,
-uint16  falsey ,body ,repeat
-    // a // b
-    string
-    lengthOf `say ""hi""`
-    , } packet i64_
-{	x
-    ,@lengthOf( i64_ )
-@tag( 7// a // b
-)
-    // `tick` ""quote"" 'q'
-    @calculatedFrom(""""
-    )  repeat zchar[
-    1 ] i8i8
-    ,
-    i64
-    i64_ @calculatedFrom(
-    ""\" ++ [233]%N ++ runes_of_ascii """ )`line1
-line2`,
-float//x
-`tab	here` , @calculatedFrom( """ ++ [128512]%N ++ runes_of_ascii """ ) char[] Logon// @lengthOf(
-`` , match  leftPad as stringy {
-    0
-    :float , ""\n""
-    : // trailing space 
-Pad  , } ,
-i8i8 @lengthOf( roots )	, } root packet	i8i8 { tag
-    @lengthOf(T
-) `" ++ [28040; 24687; 31867; 22411]%N ++ runes_of_ascii "` // " ++ [128512]%N ++ runes_of_ascii " emoji
-, }")).
-Eval vm_compute in ("<<<M706>>>" ++ check (runes_of_ascii "root packet msg_type
-{ rootA @lengthOf( Header )
-//
-// `tick` ""quote"" 'q'
-, @leftPad
-    (
-    ) @rightPad ( '\x00' )@lengthOf(
-/// triple
-// " ++ [27880; 37322]%N ++ runes_of_ascii "
-asx // trailing space 
-)	Packet @lengthOf(
-zchar	) , @tag(	255) Header `" ++ [28040; 24687; 31867; 22411]%N ++ runes_of_ascii "` ,// @lengthOf(
-len @lengthOf( chars
-    )
-    // c
-    `crlf
-line`	, x { _x Pad
-`tab	here` , string msg_type /// triple
-`tab	here`
-,
-calculatedFrom
-    {u128 { repeat zchar[ 255 ]Pad  , }
-, }
-    // c
-    , falsey/// triple
-@calculatedFrom( """ ++ [28040; 24687]%N ++ runes_of_ascii """ ) ,} ,
-int16	rootA
-    ,repeat options1 { repeat char[ 00
-    ] tag,string
-string_ @calculatedFrom( ""a\\"" ),repeat falsey
-    `a\` ,} ,@lengthOf( u8x )zchar `` ,char[
-65535
-    ] metadata `tab	here` ,@lengthOf( crc ) repeat
-/// triple
-//x
-f64
-    charz `a\` ,
-    }
-// @lengthOf(
-")).
-Eval vm_compute in ("<<<M3819>>>" ++ check (runes_of_ascii "packet int {
-    len T,
-}
-
-MetaData trueish {
-    // packet A { u8 x, }
-}
-
-packet BodyLength {
-    @calculatedFrom(""packet"")
-    @calculatedFrom(""CRC32"")
-    // c
-    @tag(00)
-    char[4294967296] stringy,
-    @lengthOf(leftPad)
-    // c
-    char zchar,
-    @lengthOf(MetaDataX)
-    @tag(10)
-    // " ++ [128512]%N ++ runes_of_ascii " emoji
-    @rightPad('0')
-    options1 matchKey `{ , }`,
-    @tag(42)
-    @tag(1)
-    @tag(10)
-    char[] stringy `doc`,
-    msg_type `" ++ [233]%N ++ runes_of_ascii "`,
-    @lengthOf(trueish)
-    body {
-        repeat o stringy `crlf
-        line`,
-        repeat u32 i8i8,
-        char[65535] stringy `a\`,
-        //x
-    },
-    @calculatedFrom(""packet"")
-    matchKey,
-    @tag(4294967296)
-    uint32 rootA @lengthOf(trueish),
-    string body `u8 x,`,
-}")).
-Eval vm_compute in ("<<<M4013>>>" ++ check (runes_of_ascii "// a // b
-root packet charz {
-    @tag(007)
-    repeat u32 chars,
-    Packet `doc`,
-}
-
-MetaData rootA {
-    char[42] Packet `crlf
-        line`,
-}// c
-
-packet asx {
-    repeat calculatedFrom {
-        asx @lengthOf(chars),
-        repeat string x_y_z `line1
-                line2`,
-        repeat u32 i64_ `it's`,
-        A @lengthOf(Logon) `tab	here`,
-    },
-    uint32 asx @lengthOf(BodyLength),
-    // " ++ [27880; 37322]%N ++ runes_of_ascii "
-    // " ++ [27880; 37322]%N ++ runes_of_ascii "
-    char[0123456789] calculatedFrom,
-    repeat Z9_,
-    match asx as uint8x {
-        // c
-        [""{,}"", ""it's"", 7, ""CRC32""] : msg_type,
-        [1] : u8x,
-        ""CRC32"" : T,
-    },
-    i8 charz @calculatedFrom(""x y"") `" ++ [233]%N ++ runes_of_ascii "`,
-}
-
-MetaData u8x {
-    // " ++ [128512]%N ++ runes_of_ascii " emoji
-    i8 T,
-}")).
-Eval vm_compute in ("<<<M363>>>" ++ check (runes_of_ascii "packet A {
-repeat
-    o Z9_ ,
-    @calculatedFrom( """ ++ [233]%N ++ runes_of_ascii "t" ++ [233]%N ++ runes_of_ascii """ ) @calculatedFrom(
-    ""a\\"" ) @tag( 42) match Header as
-    // packet A { u8 x, }
-    tag {
-    ""`tick`"" :
-As , [
-    ""\" ++ [233]%N ++ runes_of_ascii """ ] :
-asx[ 3
-,  ""1"", ""\n"" , 007
-,
-    ""\n"" ] :options1 ""abc"" :
-//	t
-/// triple
-falsey , 4294967296 :	metadata , } ,  @tag(4294967296) tag @calculatedFrom( """ ++ [128512]%N ++ runes_of_ascii """ ) , }
-    // `tick` ""quote"" 'q'
-    packet stringy {
-    char[]
-packetx
-`
-`,string leftPad @lengthOf(float
-    ) ,@tag( //	t
-65535 )	@lengthOf( packetx) @lengthOf( Pad )
-// trailing space 
-// " ++ [27880; 37322]%N ++ runes_of_ascii "
-repeatCount BodyLength , // a // b
-char[] A
-    @lengthOf( // packet A { u8 x, }
-a1)
-    `two words` , }
-packet falsey // " ++ [27880; 37322]%N ++ runes_of_ascii "
-{ }")).
-Eval vm_compute in ("<<<M3647>>>" ++ check (runes_of_ascii "
-packet	Z9_ { a1
-	, 
-}root
-	packet crc{ 
-/// triple
-	// trailing space 
-      u32
-
-o 
-@calculatedFrom(
-
-""it's""  ),
-
-    float32 lengthOf
-
-    ,
-zchar[
-	4294967296
-        //	t
-	]repeatCount@lengthOf(MetaDataX
-
-    )
-`{ , }`
-
-    ,  //
-  @rightPad(	'0'
-
-    // packet A { u8 x, }
-// c
-    ) body
-	{string
-
-    Packet
-`tab	here`
-
-    , 
-}
-, repeat
-	i8i8{
-    match
-
-    BodyLength  as Foo
-{
-7
-:  f32a	, 
-42 
-:A ""packet"" : 
-uint8x
-	,
-
-[
-""a\\"" ] 
-  // a // b
-    :u8x 
-,	""it's""
-
-    :
-As ,  }	,
-	repeat zchar[
-
-65535] crc	, char[] chars`a\`,  }  //	t
-,  char[ 
-4294967296
-    ]
-    repeatCount
-
-`two words`
-,
-
-}
-")).
-Eval vm_compute in ("<<<M1095>>>" ++ check (runes_of_ascii "//
-packet
-// @lengthOf(
-// `tick` ""quote"" 'q'
-u8x
-    { repeat int _x`line1
-line2`
-, @lengthOf( rootA  )
-    int16
-leftPad , repeat Logon  _x
-    , } packet float {
-    repeat u8x // " ++ [128512]%N ++ runes_of_ascii " emoji
-{ match asx as asx {	""a\""b""
-    // `tick` ""quote"" 'q'
-    :
-BodyLength , [ 0 ] : len ,
-    //	t
-    """ ++ [28040; 24687]%N ++ runes_of_ascii """ : BodyLength,
-[ 0 // " ++ [128512]%N ++ runes_of_ascii " emoji
-, ""\" ++ [233]%N ++ runes_of_ascii """ ]
-/// triple
-// " ++ [27880; 37322]%N ++ runes_of_ascii "
-:leftPad ,
-    4294967296: T
-// @lengthOf(
-/// triple
-,
-} //	t
-, } , chars {match Pad as zchar // packet A { u8 x, }
-{
-    10 :
-i8i8
-[ 3
-    // a // b
-    ,
-10 ] : u8x
-    , } , zchar[ 4294967296//
-] stringy @calculatedFrom( ""\" ++ [233]%N ++ runes_of_ascii """
-) , } ,
-    //
-    }
-")).
-Eval vm_compute in ("<<<M261>>>" ++ check (runes_of_ascii "packet// " ++ [128512]%N ++ runes_of_ascii " emoji
-BodyLength {@calculatedFrom( ""it's"" ) zchar[ 0123456789] Z9_ `it's` , } packet zchar{ @lengthOf(
-rootA )@rightPad ( '0' )// " ++ [27880; 37322]%N ++ runes_of_ascii "
-repeat
-int64
-stringy
-,@lengthOf( lengthOf ) match Pad as o
-// a // b
-//x
-{ [ 10
-    , ""a\""b""] :
-BodyLength, """ ++ [233]%N ++ runes_of_ascii "t" ++ [233]%N ++ runes_of_ascii """ :zchar  3:T },
-} MetaData Logon { uint8x i64_ , } root packet
-/// triple
-// `tick` ""quote"" 'q'
-zchar {
-charz `" ++ [28040; 24687; 31867; 22411]%N ++ runes_of_ascii "` , } packet i64_
-{	u
-`two words`
-// `tick` ""quote"" 'q'
-// c
-, @calculatedFrom(""it's""
-)char[
-    // trailing space 
-    0123456789	] body`it's`
-    ,char[ 255 ]leftPad `two words` , }")).
-Eval vm_compute in ("<<<M1372>>>" ++ check (runes_of_ascii "root
-packet stringy	{ repeat char[]
-MetaDataX , @calculatedFrom(""CRC32""
-) body  , @tag(// @lengthOf(
-42 ) @rightPad (
-' ' ) @rightPad (
-    ) // packet A { u8 x, }
-repeat u8x {  BodyLength@lengthOf(A ) ,	} ,match f32a
-    as x_y_z{  4294967296
-: Foo ,
-}
-// @lengthOf(
-//x
-, repeatCount
-{ uint8 As
-/// triple
-// a // b
-`a\` // a // b
-,} , } packet  u{repeat// `tick` ""quote"" 'q'
-char charz ,
-} options {
-    Header = char ;	}root
-    packet  i64_ {
-u8  Z9_
-`
-`,
-@calculatedFrom( ""1""
-)u128 float  , } options{_x
-    =00 ;	}")).
-Eval vm_compute in ("<<<M672>>>" ++ check (runes_of_ascii "packet
-int
-{ string
-    x_y_z, roots , i8
-    /// triple
-    options1 , // " ++ [27880; 37322]%N ++ runes_of_ascii "
-@tag( 3) uint32
-charz@lengthOf(
-repeatCount ) `
-` // " ++ [27880; 37322]%N ++ runes_of_ascii "
-, @lengthOf( u )
-int8 a1
-    @calculatedFrom( """ ++ [128512]%N ++ runes_of_ascii """
-) ,
-    @tag(
-    00)
-match matchKey as
-    roots { ""a	b"" :
-// " ++ [27880; 37322]%N ++ runes_of_ascii "
-// @lengthOf(
-Packet  ,
-""CRC32""// " ++ [128512]%N ++ runes_of_ascii " emoji
-:Foo
-    , 007	://	t
-Foo }
-,  match T  as MetaDataX
-    {""{,}"" : BodyLength // `tick` ""quote"" 'q'
-,
-1:
-stringy, // packet A { u8 x, }
-"""":packetx ,00  :
-body 0
-    :
-Foo ,
-42  : x
-    /// triple
-    , },}
-")).
-Eval vm_compute in ("<<<M335>>>" ++ check (runes_of_ascii "packet Logon//x
-{ @calculatedFrom( ""a	b""
-    ) repeat options1 , @calculatedFrom(
-    ""a\\"") // c
-char[] options1 `it's`, @tag(4294967296 ) repeat Logon
-{match trueish as
-    u128
-    {""x y""
-    //	t
-    :// c
-i64_
-    ,
-    [ 4294967296 , 007, 10 ]: i8i8 , } ,
-//
-// @lengthOf(
-T	`u8 x,` ,repeat uint64 T `u8 x,`
-, } , } options // @lengthOf(
-{u128 =// trailing space 
-'0'tag =  true
-    ; Packet  = char[ 0123456789 ] ;
-    Foo = 007 body
-= 3 ;
-    } packet i64_
-{ }
-//x
-")).
-Eval vm_compute in ("<<<M767>>>" ++ check (runes_of_ascii "  root packet x_y_z{ @rightPad (  )repeat char[] int `tab	here`//x
-, @calculatedFrom( ""// no comment"" )
-    // c
-    pack
-, char[
-1 // `tick` ""quote"" 'q'
-]
-int	@calculatedFrom(
-""" ++ [28040; 24687]%N ++ runes_of_ascii """ ) , MetaDataX a1 ,Z9_
-{u16 pack, char[
-0]
-options1, repeat stringy{ /// triple
-i8i8 @lengthOf( int
-    ) , zchar packetx , } ,Packet`// not a comment`
-, } ,
-@rightPad ( ' ' ) uint64 zchar `" ++ [28040; 24687; 31867; 22411]%N ++ runes_of_ascii "` , /// triple
-u16 Header
-    `crlf
-line`,	}options{packetx=  false ;
-    }
-")).
-Eval vm_compute in ("<<<M4373>>>" ++ check (runes_of_ascii "MetaData Logon {
-    zchar[3] a1 `" ++ [28040; 24687; 31867; 22411]%N ++ runes_of_ascii "`,
-    char[007] MetaDataX `a\`,
-}
-
-root packet pack {
-}
-
-packet i64_ {
-    @lengthOf(chars)
-    len {
-        uint8 rootA `doc`,
-        string_ `crlf
-                line`,//	t
-        match charz as Foo {
-            42 : options1,
-            [255] : charz,
-        },
-    },
-    roots repeatCount `two words`,
-    //	t
-    string Logon @calculatedFrom(""a\""b""),
-    @calculatedFrom(""a\\"")
-    Z9_,
-}//x")).
-Eval vm_compute in ("<<<M716>>>" ++ check (runes_of_ascii "
-root packet Z9_ { asx
-// trailing space 
-//
-@lengthOf(u8x  )
-    `crlf
-line`
-    , i16 trueish `tab	here`  , i8 metadata , @calculatedFrom(
-""// no comment"" // a // b
-) Z9_ `tab	here`
-, @calculatedFrom( """" )	A x
-    ,
-    Logon Foo ,
-    repeat  zchar[	3
-]// `tick` ""quote"" 'q'
-pack , } MetaData u8x {} packet x_y_z
-    {
-    @rightPad ( ' ')
-    repeat
-    crc  asx /// triple
-, // " ++ [128512]%N ++ runes_of_ascii " emoji
-}
-    options {
-body =
-u32 ; }")).
-Eval vm_compute in ("<<<M608>>>" ++ check (runes_of_ascii "packet asx{repeat
-    falsey {  match lengthOf as T {
-    [""\" ++ [233]%N ++ runes_of_ascii """
-    ,42 ,  1
-, ""// no comment"", """ ++ [28040; 24687]%N ++ runes_of_ascii """]
-    :	x , 4294967296 :matchKey ,
-7 :roots
-    ,[ // `tick` ""quote"" 'q'
-0123456789
-,// " ++ [128512]%N ++ runes_of_ascii " emoji
-""// no comment""
-    // trailing space 
-    ,0123456789 ,
-3	, 0123456789
-    , 65535, ""a\\"" , ""a	b"" ]
-    : metadata , [ 65535 ] : asx , [""a	b"",
-""a\\"" , 4294967296	] : x ,	}//
-, } , @leftPad (  ) falsey T ,	}
-")).
-Eval vm_compute in ("<<<M540>>>" ++ check (runes_of_ascii "packet asx {  @tag( 7 ) repeat	u16  _x , //
-@calculatedFrom(""a	b"") string	a1`two words`
-    , A@calculatedFrom( ""abc"")`
-` ,//
-uint16 pack // a // b
-@calculatedFrom(  ""// no comment""
-),
-    // a // b
-    char[] tag  @lengthOf( u128 )
-`
-`
-    , string_
-@lengthOf( chars
-    )	, // " ++ [128512]%N ++ runes_of_ascii " emoji
-match Pad as  packetx {255 : u128 ,  } ,repeat // `tick` ""quote"" 'q'
-calculatedFrom float `
-`	,	}
-")).
-Eval vm_compute in ("<<<M964>>>" ++ check (runes_of_ascii "
-root packet
-asx { @calculatedFrom( ""CRC32""
-// " ++ [27880; 37322]%N ++ runes_of_ascii "
-// packet A { u8 x, }
-)match  chars as
-trueish {
-""""	: T	, 42
-    : f32a , ""{,}"" :	calculatedFrom 255  :// c
-A ,	} ,
-    }root packet  matchKey { u16 len@lengthOf( metadata )	`// not a comment` , }  options {
-Z9_ =
-    ""it's"" packetx= """ ++ [28040; 24687]%N ++ runes_of_ascii """	; falsey
-// a // b
-// c
-= //
-char[ 0 ] ;MetaDataX = ""a\\""
-    A = true ;
-    }
-")).
-Eval vm_compute in ("<<<M235>>>" ++ check (runes_of_ascii "root //x
-packet
-rootA
-{ @leftPad ( '\x00'
-    ) @rightPad
-    (' ' )
-    // a // b
-    @tag(0 ) repeat zchar[ 3 ] matchKey
-    , // packet A { u8 x, }
-} packet u8x { } options
-    { packetx= '0'
-Pad = '\x00' Logon
-    =  false ;}
-// " ++ [128512]%N ++ runes_of_ascii " emoji
-// c
-MetaData u8x {i32 rootA
-    , MetaDataX zchar`" ++ [233]%N ++ runes_of_ascii "` , // packet A { u8 x, }
-int64 Foo `// not a comment` ,
-}
-")).
-Eval vm_compute in ("<<<M9>>>" ++ check (runes_of_ascii "options { i64_ =// a // b
-""it's"" ;
-Foo =  ""\n""	; x_y_z = '\x00';
-len= '0'
-}	root packet Packet
-{ @tag(  0)  match	crc
-as A// " ++ [27880; 37322]%N ++ runes_of_ascii "
-{[ ""`tick`"",
-    ""`tick`""
-// @lengthOf(
-// a // b
-, ""packet""
-,
-    ""CRC32""
-    ,
-// " ++ [27880; 37322]%N ++ runes_of_ascii "
-//
-""\n""
-,""a\\""
-,
-    255 ]
-    : T // c
-} // @lengthOf(
-, repeat float64 x,
-zchar[ 00 // `tick` ""quote"" 'q'
-] chars,
-} //	t")).
-Eval vm_compute in ("<<<M589>>>" ++ check (runes_of_ascii "options {
-    MetaDataX = ""it's""
-    ; Header
-// " ++ [128512]%N ++ runes_of_ascii " emoji
-// " ++ [128512]%N ++ runes_of_ascii " emoji
-= // packet A { u8 x, }
-true ; u8x
-    =
-false; stringy= """ ++ [233]%N ++ runes_of_ascii "t" ++ [233]%N ++ runes_of_ascii """  }
-MetaData i64_{ a1 // trailing space 
-_x // a // b
-, u16 charz , char[ 1 ]	u `doc` , uint64 i8i8 ,/// triple
-o /// triple
-uint8x	,
-char[]
-Pad ,}
-packet _x{  }
-options { // " ++ [128512]%N ++ runes_of_ascii " emoji
-u= false }
-")).
-Eval vm_compute in ("<<<M4201>>>" ++ check (runes_of_ascii "packet falsey {
-    //	t
-    _x {
-        T @calculatedFrom(""" ++ [28040; 24687]%N ++ runes_of_ascii """),
-        int64 roots,
-        match float as a1 {
-            1 : falsey,
-            [
-                ""CRC32"", ""a\""b"", 255, 65535, 42,
-                0123456789
-            ] : pack,
-        },
-    },
-    pack {
-        falsey,
-    },
-    packetx,
-}")).
-Eval vm_compute in ("<<<M630>>>" ++ check (runes_of_ascii "root packet As { match pack as body{ [3 , ""\" ++ [233]%N ++ runes_of_ascii """ ,255, 007	, 00
-// trailing space 
-//	t
-,
-007
-    ]
-    :Pad ,}
-    //x
-    ,
-@lengthOf(
-    charz )
-@rightPad ( '0') @calculatedFrom( ""1"" ) repeatCount BodyLength  ,	@rightPad ('\x00' ) zchar[ 00 ] string_
-`" ++ [28040; 24687; 31867; 22411]%N ++ runes_of_ascii "` , crc @lengthOf(
-    msg_type )
-, //x
-}")).
-Eval vm_compute in ("<<<M1482>>>" ++ check (runes_of_ascii "root packet Foo // " ++ [128512]%N ++ runes_of_ascii " emoji
-{ } options {
-    // a // b
-    tag // `tick` ""quote"" 'q'
-= //	t
-""""
-    ; u8x = zchar[""" ++ [233]%N ++ runes_of_ascii "t" ++ [233]%N ++ runes_of_ascii """  ] }
-MetaData
-    int {zchar[ 10]
-lengthOf	`` , i64 u8x`// not a comment` ,MetaDataX pack// `tick` ""quote"" 'q'
-`crlf
-line`
-, Logon charz `crlf
-line`
-    ,
-    // a // b
-    }
-")).
-Eval vm_compute in ("<<<M1480>>>" ++ check (runes_of_ascii "root packet Foo // " ++ [128512]%N ++ runes_of_ascii " emoji
-{ } options {
-    // a // b
-    tag // `tick` ""quote"" 'q'
-= //	t
-""""
-    ; u8x = zchar[0 0  ] }
-MetaData
-    int {zchar[ 10]
-lengthOf	`` , i64 u8x`// not a comment` ,MetaDataX pack// `tick` ""quote"" 'q'
-`crlf
-line`
-, Logon charz `crlf
-line`
-    ,
-    // a // b
-    }
-")).
-Eval vm_compute in ("<<<M1623>>>" ++ check (runes_of_ascii "root packet Foo // " ++ [128512]%N ++ runes_of_ascii " emoji
-{ } options {
-    // a // b
-    tag // `tick` ""quote"" 'q'
-= //	t
-""""
-    ; u8x = zchar[0  ] }
-MetaData
-    int {zchar[ 10]
-lengthOf	`` , i64 u8x`// not a comment` ,MetaDataX pack// `tick` ""quote"" 'q'
-`crlf
-line`
-, caf" ++ [233]%N ++ runes_of_ascii "_1 charz `crlf
-line`
-    ,
-    // a // b
-    }
-")).
-Eval vm_compute in ("<<<M1566>>>" ++ check (runes_of_ascii "root packet Foo // " ++ [128512]%N ++ runes_of_ascii " emoji
-{ } options {
-    // a // b
-    tag // `tick` ""quote"" 'q'
-= //	t
-""""
-    ; u8x = zchar[0  ] }
-MetaData
-    int {zchar[ 10]
-lengthOf	`` , i64 u8x`// not a comment` ,MetaDataX `crlf
-line`// `tick` ""quote"" 'q'
-pack
-, Logon charz `crlf
-line`
-    ,
-    // a // b
-    }
-")).
-Eval vm_compute in ("<<<M4169>>>" ++ check (runes_of_ascii "packet As {
-    // packet A { u8 x, }
-    repeatCount @lengthOf(Pad) `" ++ [28040; 24687; 31867; 22411]%N ++ runes_of_ascii "`,// c
-}
-
-MetaData uint8x {
-    char[3] o `say ""hi""`,
-    uint16 A,
-    leftPad matchKey,
-    char[] As `line1
-        line2`,
-    u32 string_,/// triple
-    metadata len,
-}
-
-packet options1 {
-    metadata options1,
-}")).
-Eval vm_compute in ("<<<M3483>>>" ++ check (runes_of_ascii "packet A {
-    u8 a,
-}
-packet B {
-    u16 b,
-}
-packet C {
-    u32 c,
-}
-root packet M {
-    u16 Kc, u16 Kb, u16 Ka,
-    match Kc as X {
-        9 : A,
-        10 : B,
-    },
-    match Kb as Y {
-        2 : C,
-        1 : A,
-    },
-    match Ka as Z {
-        1 : B,
-    },
-    A, B, C,
-}
-")).
-Eval vm_compute in ("<<<M993>>>" ++ check (runes_of_ascii "packet chars // a // b
-{ }
-packet int
-    { options1 // " ++ [128512]%N ++ runes_of_ascii " emoji
-{ repeat int32 u ,char[] Pad `" ++ [28040; 24687; 31867; 22411]%N ++ runes_of_ascii "`, },
-    repeat char[] T
-/// triple
-//	t
-,	match u128 as Packet {
-""\n"": MetaDataX , ""\n""
-    :
-falsey
-    ""a	b""
-:
-    i8i8 ,""it's"" : options1	,""`tick`"":
-pack , ""\" ++ [233]%N ++ runes_of_ascii """:int  , }	, }
-")).
-Eval vm_compute in ("<<<M536>>>" ++ check (runes_of_ascii "root packet A  { @rightPad ( ) char[ 0
-// @lengthOf(
-// trailing space 
-] Logon
-    //
-    @calculatedFrom( ""abc""
-)
-    `line1
-line2` , @calculatedFrom(
-""// no comment"" )repeat f64 u128// " ++ [27880; 37322]%N ++ runes_of_ascii "
-`line1
-line2`// @lengthOf(
-, }	options  {BodyLength =	' ' packetx =
-""abc"" }")).
-Eval vm_compute in ("<<<M106>>>" ++ check (runes_of_ascii "// " ++ [27880; 37322]%N ++ runes_of_ascii "
-options //x
-{ msg_type
-//x
-//	t
-= '0'} packet _x { // `tick` ""quote"" 'q'
-@tag( 00  ) @tag(1)	char[] a1
-,
-// packet A { u8 x, }
-/// triple
-} packet float
-//	t
-// " ++ [128512]%N ++ runes_of_ascii " emoji
-{ }
-//	t
-// packet A { u8 x, }
-MetaData
-    // `tick` ""quote"" 'q'
-    Foo {
-}")).
-Eval vm_compute in ("<<<M59>>>" ++ check (runes_of_ascii "packet _x { Packet { chars
-    Logon
-,int8 float , i64 rootA `" ++ [233]%N ++ runes_of_ascii "` ,} /// triple
-,@calculatedFrom(
-""abc"" )
-    x_y_z
-{ leftPad // trailing space 
-charz
-`a\` ,i32 metadata `say ""hi""` ,} , charz rootA `u8 x,`, }  root// " ++ [128512]%N ++ runes_of_ascii " emoji
-packet f32a//
-{ }
-")).
-Eval vm_compute in ("<<<M312>>>" ++ check (runes_of_ascii "options {
-f32a= 3	;Logon
-    =
-    ""x y"";
-len
-=
-10	}packet string_ {@lengthOf( MetaDataX ) // c
-int32 f32a , _x @lengthOf( rootA) ,@rightPad ( ) stringy ,
-@tag( 0123456789 )
-    // a // b
-    repeatCount @calculatedFrom( """ ++ [128512]%N ++ runes_of_ascii """
-    ), }
-")).
-Eval vm_compute in ("<<<M2246>>>" ++ check (runes_of_ascii "MetaData Packet { }packet	asx  { @lengthOf( @lengthOf( asx) falsey`crlf
-line`
-,
-    }
-    packet x	{uint32// @lengthOf(
-rootA	,u32 options1 `say ""hi""` , @tag( 7
-    )// packet A { u8 x, }
-msg_type @lengthOf(
-stringy	)	, }
-
-")).
-Eval vm_compute in ("<<<M4159>>>" ++ check (runes_of_ascii "MetaData Packet {
-}
-
-packet asx {
-    @lengthOf(asx)
-    falsey `crlf
-        line`,
-}
-
-packet x {
-    uint32 rootA,
-    u32 options1 `say ""hi""`,
-    @tag(7)
-    // packet A { ''u8 x, }
-    msg_type @lengthOf(stringy),
-}")).
-Eval vm_compute in ("<<<M2276>>>" ++ check (runes_of_ascii "MetaData Packet { }packet	asx  { @lengthOf( asx) falsey`crlf
-line`
-,
-    } }
-    packet x	{uint32// @lengthOf(
-rootA	,u32 options1 `say ""hi""` , @tag( 7
-    )// packet A { u8 x, }
-msg_type @lengthOf(
-stringy	)	, }
-
-")).
-Eval vm_compute in ("<<<M3822>>>" ++ check (runes_of_ascii "MetaData Packet {
-}
-
-packet asx {
-    @lengthOf(asx)
-    falsey `crlf
-        line`,
-}
-
-packet x {
-    uint32 rootA,
-    options1 `say ""hi""`,
-    @tag(7)
-    // packet A { u8 x, }
-    msg_type @lengthOf(stringy),
-}")).
-Eval vm_compute in ("<<<M2367>>>" ++ check (runes_of_ascii "MetaData Packet { }packet	asx  { @lengthOf( asx) falsey`crlf
-line`
-,
-    }
-    packet x	{uint32// @lengthOf(
-rootA	,u32 options1 `say ""hi""` , @tag( 7
-    )// packet A { u8 x, }
-msg_type @lengthOf(
-stringy	)	} ,
-
-")).
-Eval vm_compute in ("<<<M2250>>>" ++ check (runes_of_ascii "MetaData Packet { }packet	asx  { @lengthOf( ) falsey`crlf
-line`
-,
-    }
-    packet x	{uint32// @lengthOf(
-rootA	,u32 options1 `say ""hi""` , @tag( 7
-    )// packet A { u8 x, }
-msg_type @lengthOf(
-stringy	)	, }
-
-")).
-Eval vm_compute in ("<<<M2348>>>" ++ check (runes_of_ascii "MetaData Packet { }packet	asx  { @lengthOf( asx) falsey`crlf
-line`
-,
-    }
-    packet x	{uint32// @lengthOf(
-rootA	,u32 options1 `say ""hi""` , @tag( 7
-    )// packet A { u8 x, }
-{ @lengthOf(
-stringy	)	, }
-
-")).
-Eval vm_compute in ("<<<M4359>>>" ++ check (runes_of_ascii "packet metadata {
-    @rightPad('\x00')
-    @rightPad('\x00')
-    char[] _x @calculatedFrom(""a\\""),
-    repeat int64 roots,
-    repeat zchar[007] i64_,
-    match A as o {
-        ""1"" : Foo,
-    },//x
-}")).
-Eval vm_compute in ("<<<M4511>>>" ++ check (runes_of_ascii "
-root
-
-packet	stringy  { @tag( 7 ) @tag(1
-
-    ) 
-@rightPad
-( '\x00'
-	)
-	Foo  // `tick` ""quote"" 'q'
-	x
-	`crlf
-line`,
-	@calculatedFrom(
-""a	b""  )
-roots 	 //x
-	`it's`	// @lengthOf(
-
-	,  }
-")).
-Eval vm_compute in ("<<<M928>>>" ++ check (runes_of_ascii "  packet
-zchar {	match roots
-as stringy{[ //	t
-""`tick`"" ]	: calculatedFrom 10 :asx , """ ++ [233]%N ++ runes_of_ascii "t" ++ [233]%N ++ runes_of_ascii """
-    :
-    // `tick` ""quote"" 'q'
-    BodyLength , """ ++ [128512]%N ++ runes_of_ascii """ :options1 , 3:
-    repeatCount
-    , }
-,}")).
-Eval vm_compute in ("<<<M1337>>>" ++ check (runes_of_ascii "MetaData options1
-    { packetx x`
-`, //	t
-}
-    options{
-    x_y_z =true options1
-    = char[]// trailing space 
-;
-    body =
-65535/// triple
-lengthOf =	""it's"" ;
-x = '\x00'
-}
-")).
-Eval vm_compute in ("<<<M535>>>" ++ check (runes_of_ascii "options
-{ tag
-= string ; // `tick` ""quote"" 'q'
-chars = ""CRC32"" ;// packet A { u8 x, }
-body  = ""// no comment"" /// triple
-;}
-    packet string_{ // " ++ [128512]%N ++ runes_of_ascii " emoji
-matchKey A, }")).
-Eval vm_compute in ("<<<M98>>>" ++ check (runes_of_ascii "root // trailing space 
-packet Foo
-    // " ++ [128512]%N ++ runes_of_ascii " emoji
-    {
-    //x
-    char[] body`crlf
-line`, // " ++ [128512]%N ++ runes_of_ascii " emoji
-} options {
-    _x=  false
-    }
-packet BodyLength	{
-} 	 ")).
-Eval vm_compute in ("<<<M2349>>>" ++ check (runes_of_ascii "MetaData Packet { }packet	asx  { @lengthOf( asx) falsey`crlf
-line`
-,
-    }
-    packet x	{uint32// @lengthOf(
-rootA	,u32 options1 `say ""hi""` , @tag( 7
-    )")).
-Eval vm_compute in ("<<<M2339>>>" ++ check (runes_of_ascii "MetaData Packet { }packet	asx  { @lengthOf( asx) falsey`crlf
-line`
-,
-    }
-    packet x	{uint32// @lengthOf(
-rootA	,u32 options1 `say ""hi""` , @tag(")).
-Eval vm_compute in ("<<<M4450>>>" ++ check (runes_of_ascii "packet matchKey {
+    @calculatedFrom(""a\""b"")
     @calculatedFrom(""" ++ [28040; 24687]%N ++ runes_of_ascii """)
-    // " ++ [128512]%N ++ runes_of_ascii " emoji
-    match tag as Foo {
-        [""a\""b"", 255] : trueish,
-    },// a // b
+    int32 MetaDataX `" ++ [233]%N ++ runes_of_ascii "`,
+    u8 int,
+    @lengthOf(options1)
+    repeat u8 BodyLength,
+    @tag(1)
+    Logon,
+    repeat int32 u8x `say ""hi""`,
+    match int as charz {
+        ""abc"" : roots,
+    },
+    string_ {
+        zchar @lengthOf(calculatedFrom) ``,
+    },
 }
 
-options {
-}")).
-Eval vm_compute in ("<<<M249>>>" ++ check (runes_of_ascii "
-options {
-Header
-    // a // b
-    =
-false float
-=
-""abc"" ;
-i64_  = false ;}options // " ++ [128512]%N ++ runes_of_ascii " emoji
-{
-//
-//x
-repeatCount
-    =
-    ""a\\"";
-}
-//
-")).
-Eval vm_compute in ("<<<M3565>>>" ++ check (runes_of_ascii "packet calculatedFrom {
+root packet lengthOf {
     @tag(4294967296)
-    // c5
-    u msg_type,
-    // c8
-    char[3] crc @lengthOf(len) `u8 x,`,// c17
+    A @lengthOf(i64_) `doc`,
+    body @lengthOf(lengthOf) `it's`,
+    zchar[10] i8i8,
+    @calculatedFrom(""" ++ [233]%N ++ runes_of_ascii "t" ++ [233]%N ++ runes_of_ascii """)
+    i64 int `u8 x,`,
+    repeat trueish {
+        string options1,
+        zchar[0123456789] _x `tab	here`,
+        Pad {
+            repeat string repeatCount,
+            repeat string _x,
+            Packet @lengthOf(roots) `
+            `,
+            string crc @calculatedFrom(""abc""),
+        },
+        match i8i8 as string_ {
+            // c
+            [""it's""] : options1,
+            //
+            // @lengthOf(
+            ""a	b"" : string_,
+            [""a	b"", 00] : metadata,
+            0 : o,
+            ""\" ++ [233]%N ++ runes_of_ascii """ : Pad,
+        },
+    },
+    char[7] i8i8 `tab	here`,
+    roots {
+        repeat uint8 _x `tab	here`,
+    },
+    repeat int64 f32a,
+    match asx as calculatedFrom {
+        65535 : asx,
+        [1] : uint8x,
+        42 : x,
+        [
+            ""x y"", ""1"", ""`tick`"", ""1"", ""1"",
+            ""a	b""
+        ] : MetaDataX,
+    },
 }
-// c18")).
-Eval vm_compute in ("<<<M1698>>>" ++ check (runes_of_ascii "root packet /// triple
-rootA {	i32
-MetaDataX@calculatedFrom( ""CRC32"" ) `line1
-line2` , } MetaData BodyLength {
-u8 u8
-rootA, } // c")).
-Eval vm_compute in ("<<<M1724>>>" ++ check (runes_of_ascii "root packet /// trip" ++ [65279]%N ++ runes_of_ascii "le
-rootA {	i32
-MetaDataX@calculatedFrom( ""CRC32"" ) `line1
-line2` , } MetaData BodyLength {
-u8
-rootA, } // c")).
-Eval vm_compute in ("<<<M1662>>>" ++ check (runes_of_ascii "root packet /// triple
-rootA {	i32
-MetaDataX@calculatedFrom( ""CRC32""  `line1
-line2` , } MetaData BodyLength {
-u8
-rootA, } // c")).
-Eval vm_compute in ("<<<M1816>>>" ++ check (runes_of_ascii "packet
-    Pad // a // b
-{ i8i8 @calculatedFrom( ""a	b"") `u8 x,` `u8 x,` ,
-} options{ float// " ++ [128512]%N ++ runes_of_ascii " emoji
-= f64 i64_
-=//	t
-00 }
-")).
-Eval vm_compute in ("<<<M3479>>>" ++ check (runes_of_ascii "packet
 
-    order_item 
-{
-	u8	a  ,	}
-root 
+MetaData chars {
+}")).
+Eval vm_compute in ("<<<M281>>>" ++ check (runes_of_ascii "// @lengthOf(
+root packet  leftPad{ match Logon as	msg_type { ""it's"" :
+    int , """ ++ [128512]%N ++ runes_of_ascii """
+    :charz ""a\\""
+: options1 , } , @rightPad(
+    ' ') asx `doc`
+, @leftPad( '0' ) uint32 charz, @tag(
+255 ) zchar[ 10 ]Pad ``
+, string  asx	`it's` , }
 packet
-    new_order
-
-    {
-
-    order_item
-
+// packet A { u8 x, }
+// trailing space 
+Pad {@lengthOf(lengthOf )
+@lengthOf( crc  )u8x
+    `a\` ,
+float64 f32a  @calculatedFrom(
+""a\""b""
+    ) `it's`  ,@lengthOf(	options1 ) @tag( 42 )@calculatedFrom(
+// a // b
+//x
+""1""	) zchar[ 7 ] repeatCount	`say ""hi""` , @calculatedFrom( ""// no comment"" )
+    //x
+    zchar[ 3] i8i8 @calculatedFrom(
+""// no comment"" ) `" ++ [233]%N ++ runes_of_ascii "`,@tag( //
+65535 )
+    match o
+    as float
+    { [ // @lengthOf(
+10 ]
+    :len } ,@tag(3//x
+)
+match repeatCount as Pad {
+    [ ""// no comment"",
+42 , ""\n""
+,
+    007 , 3
+    , ""// no comment""
+    // c
+    ]
+:
+    calculatedFrom}
+    , u8x
+{ repeat
+    string x `it's` ,	x @calculatedFrom( """ ++ [128512]%N ++ runes_of_ascii """
+)//
+, falsey
+    { match	f32a as// c
+u128 { [ ""it's""
+    //x
     ,
-
-    u8 x ,
+    0123456789
+    , 0, """ ++ [233]%N ++ runes_of_ascii "t" ++ [233]%N ++ runes_of_ascii """ ,42 , 65535 // c
+,
+1 , 255 ] :
+    uint8x ,
+0 :asx ,} , repeat packetx u `{ , }` , string Foo	, x @calculatedFrom(
+""a	b"")//	t
+,
+} , o
+    pack
+    , }  , // a // b
+} packet i64_ { repeat
+char[ 3 ]
+a1
+,} options
+    // a // b
+    {	}")).
+Eval vm_compute in ("<<<M365>>>" ++ check (runes_of_ascii "
+packet
+    trueish
+    // @lengthOf(
+    {
+    char[ 7
+]chars @calculatedFrom( """ ++ [128512]%N ++ runes_of_ascii """) , char[] uint8x@calculatedFrom( ""`tick`"" )// c
+`
+` ,  int16 // a // b
+metadata @calculatedFrom( """ ++ [128512]%N ++ runes_of_ascii """// @lengthOf(
+) `doc`, pack @lengthOf( stringy	) , u8
+float @lengthOf( leftPad ) , @lengthOf(
+chars ) f32a
+    trueish, repeat
+    zchar[ //	t
+4294967296 ]
+u  , @leftPad(
+    //
+    ' ' // trailing space 
+)@lengthOf( leftPad ) @tag(
+    7 ) repeat string	u128
+,
     }
+    packet Header { u64 leftPad
+,	@lengthOf( u128	) repeat uint32
+T
+,@tag( 4294967296
+)repeat uint32
+    x_y_z ``
+    , T	,
+@tag( 1 ) zchar[7]	Packet@lengthOf( f32a  )
+// @lengthOf(
+//x
+, // trailing space 
+float32
+    lengthOf
+, // packet A { u8 x, }
+i32 // " ++ [128512]%N ++ runes_of_ascii " emoji
+calculatedFrom `crlf
+line` ,@tag(0123456789	)
+@tag( 1// trailing space 
+)
+//
+// `tick` ""quote"" 'q'
+@calculatedFrom( """ ++ [128512]%N ++ runes_of_ascii """ ) float32
+lengthOf@calculatedFrom( ""\n"" )
+    `" ++ [233]%N ++ runes_of_ascii "`
+, zchar[ 007 ] zchar @calculatedFrom(
+// a // b
+// packet A { u8 x, }
+""abc""	) `" ++ [28040; 24687; 31867; 22411]%N ++ runes_of_ascii "` /// triple
+,
+int32
+    roots
+,
+}
+")).
+Eval vm_compute in ("<<<M1788>>>" ++ check (runes_of_ascii "options {
+    LittleEndian = true;
+    StringPrefixLenType = u32;
+    FixedStringPadChar = '0';
+}
 
-")).
-Eval vm_compute in ("<<<M4429>>>" ++ check (runes_of_ascii "
-// c
-      packet 
-calculatedFrom {
-	@tag(
+packet Logout {
+    repeat InMsgkind49 {
+        u8 pad0,
+    },
+    repeat char[5] seqNo,
+    repeat u8 price,
+}
 
-4294967296)
-    u 
-msg_type , char[ 3
+packet Party {
+    zchar[7] Qty,
+}
 
-]
-crc  @lengthOf( len )
-`u8 x,` ,
-	}")).
-Eval vm_compute in ("<<<M1880>>>" ++ check (runes_of_ascii "packet
-    Pad // a // b
-{ i8i8 @calculatedFrom( ""a	b"") `u8 x,` ,
-} options{ float// " ++ [128512]%N ++ runes_of_ascii " emoji
-= f64 i6''4_
-=//	t
-00 }
+packet Logon {
+    repeat InRef10 {
+        string price,
+        char[] sym,
+        repeat Logout,
+    },
+    repeat char[3] count,
+    repeat Party,
+    char[] tag7,
+    @rightPad('0')
+    char[2] clOrdID,
+}
+
+packet Order {
+    InTail13 {
+        Party,
+    },
+    repeat char[4] count,
+}
+
+root packet Cancel {
+    Logout,
+    @leftPad('0')
+    char[9] msgKind,
+    string lastPx,
+    string tag7,
+    zchar[1] OrderId,
+    repeat Party,
+    u16 sym,
+    u16 Acct @lengthOf(Body),
+    match sym as Body {
+        [24, 44] : Logout,
+        160 : Order,
+        91 : Logon,
+        43 : Party,
+    },
+    u16 Tail @calculatedFrom(""CR\
+    C32""),
+}")).
+Eval vm_compute in ("<<<M1445>>>" ++ check (runes_of_ascii "options {
+    LittleEndian = true;
+    StringPrefixLenType = u64;
+    ArrayPrefixLenType = u8;
+    FixedStringPadChar = '0';
+}
+packet Reject {
+    i32 Ref,
+    repeat f64 OrderId,
+    repeat InNote12 {
+        u8 pad0,
+    },
+    @leftPad(' ') char[6] count,
+}
+packet Logout {
+    zchar[6] Tail,
+    repeat string venue,
+}
+packet Cancel {
+    u64 count,
+    repeat char[5] lastPx,
+    i64 Tail,
+    repeat InF140 {
+        repeat Logout,
+        repeat Reject,
+    },
+}
+root packet Trade {
+    repeat InMsgkind39 {
+        repeat Reject,
+        char[4] Px,
+    },
+    string Acct,
+    uint16 price,
+    f32 OrderId,
+    u16 x,
+    u16 clOrdID @lengthOf(Body),
+    match x as Body {
+        178 : Logout,
+        13 : Cancel,
+        174 : Reject,
+    },
+    u16 Flags @calculatedFrom(""CR\
+C32""),
+}
 ")).
-Eval vm_compute in ("<<<M631>>>" ++ check (runes_of_ascii "MetaData // " ++ [128512]%N ++ runes_of_ascii " emoji
-Packet { char[] Pad
-    // " ++ [27880; 37322]%N ++ runes_of_ascii "
-    `tab	here`,
-} MetaData	u { roots stringy`doc` , }	options	{ }
+Eval vm_compute in ("<<<M1594>>>" ++ check (runes_of_ascii "packet body {
+    @tag(0123456789)
+    repeatCount {
+        // @lengthOf(
+        i32 roots @calculatedFrom(""it's""),
+        char[] repeatCount @calculatedFrom(""packet"") `two words`,
+        repeat u16 roots,
+        match lengthOf as As {
+            [""packet"", """ ++ [28040; 24687]%N ++ runes_of_ascii """, 255, 42, ""\" ++ [233]%N ++ runes_of_ascii """] : x_y_z,
+        },
+    },
+    trueish,
+    @tag(65535)
+    @tag(255)
+    /// triple
+    @tag(00)
+    chars @calculatedFrom(""it's""),
+    match o as roots {
+        // " ++ [27880; 37322]%N ++ runes_of_ascii "
+        // c
+        ""{,}"" : options1,
+        """ ++ [28040; 24687]%N ++ runes_of_ascii """ : lengthOf,
+        00 : pack,
+        [""a\""b""] : msg_type,
+        1 : i8i8,
+        [10, 3, """"] : falsey,
+    },
+}
+
+root packet Z9_ {
+    repeat char[] Packet,
+    string chars @calculatedFrom(""a\""b"") `// not a comment`,
+}")).
+Eval vm_compute in ("<<<M42>>>" ++ check (runes_of_ascii "packet Header { @lengthOf( BodyLength)string body	@lengthOf(	zchar	)  `two words` , @lengthOf( rootA )i32 metadata `it's` ,
+    @tag( 00 ) // trailing space 
+msg_type@lengthOf( // " ++ [27880; 37322]%N ++ runes_of_ascii "
+As )  ,
+int { repeat string
+//
+//	t
+u128 `" ++ [233]%N ++ runes_of_ascii "`,
+    match MetaDataX as packetx {[ 1	,0] : MetaDataX
+    , ""{,}"" :calculatedFrom ,} ,
+    // trailing space 
+    match asx as Logon  {
+7 :uint8x  , 00 : x_y_z
+,
+    ""\" ++ [233]%N ++ runes_of_ascii """
+    : o ,""" ++ [233]%N ++ runes_of_ascii "t" ++ [233]%N ++ runes_of_ascii """
+:chars /// triple
+, } , body
+// `tick` ""quote"" 'q'
+// a // b
+i64_ `crlf
+line` , },	a1
+    `line1
+line2`  ,
+// `tick` ""quote"" 'q'
+// a // b
+chars `// not a comment`	,@tag( 7
+    )
+leftPad charz	, int64 a1 @calculatedFrom(
+""\n""
+)  ,
+}")).
+Eval vm_compute in ("<<<M1472>>>" ++ check (runes_of_ascii "packet Sub
+    // c1
+{ // c2
+u8 a // c4a
+  // c4b
+, // c5
+@calculatedFrom( // c6
+""CRC16"" ) // c8
+i16
+    // c9
+SubSum
+    // c10
+, } // c12a
+  // c12b
+root
+    // c13
+packet // c14
+Frame { u16 // c17a
+  // c17b
+MsgType // c18a
+  // c18b
+, // c19
+u16 BodyLen @lengthOf( // c22
+Body
+    // c23
+) // c24a
+  // c24b
+, // c25a
+  // c25b
+Sub // c26a
+  // c26b
+Body // c27
+, // c28
+string
+    // c29
+note // c30
+, // c31
+@calculatedFrom( // c32
+""CRC16"" // c33a
+  // c33b
+) // c34
+i16 // c35a
+  // c35b
+Checksum ,
+    // c37
+u8
+    // c38
+tail , // c40
+} ")).
+Eval vm_compute in ("<<<M350>>>" ++ check (runes_of_ascii "packet uint8x{ string_	{ repeat zchar
+    {
+// `tick` ""quote"" 'q'
+//x
+match u128
+as A{42 : pack
+    , }, // " ++ [27880; 37322]%N ++ runes_of_ascii "
+int64  u128	, repeatCount `it's` // trailing space 
+, string asx
+//	t
+//	t
+@calculatedFrom( ""a\""b"" ) , }
+    ,
+matchKey
+@calculatedFrom( ""1"" ) , } ,
+match o as
+Z9_
+{
+    // a // b
+    [ 7	] : uint8x ,
+[ 00 // `tick` ""quote"" 'q'
+,// " ++ [128512]%N ++ runes_of_ascii " emoji
+""" ++ [233]%N ++ runes_of_ascii "t" ++ [233]%N ++ runes_of_ascii """  , ""\" ++ [233]%N ++ runes_of_ascii """// trailing space 
+]  : Packet ,// a // b
+} ,f32
+A, }root
+    packet Foo{	repeat	float32	msg_type , }
 ")).
-Eval vm_compute in ("<<<M1790>>>" ++ check (runes_of_ascii "packet
-    Pad // a // b
- i8i8 @calculatedFrom( ""a	b"") `u8 x,` ,
-} options{ float// " ++ [128512]%N ++ runes_of_ascii " emoji
-= f64 i64_
-=//	t
-00 }
-")).
-Eval vm_compute in ("<<<M568>>>" ++ check (runes_of_ascii "root packet lengthOf { repeat char[
-0
-    ] i8i8 `" ++ [233]%N ++ runes_of_ascii "` ,
-MetaDataX@calculatedFrom( ""abc""
+Eval vm_compute in ("<<<M253>>>" ++ check (runes_of_ascii "packet pack
+{ @rightPad (' ' ) A// c
+@calculatedFrom( ""a\\"" )
+// " ++ [128512]%N ++ runes_of_ascii " emoji
+// " ++ [128512]%N ++ runes_of_ascii " emoji
+`
+` , u8
+    f32a, zchar[007 ] rootA
+    `u8 x,`, repeat
 /// triple
 // a // b
-),  }")).
-Eval vm_compute in ("<<<M512>>>" ++ check (runes_of_ascii "packet	f32a { i16 uint8x@lengthOf( a1 ) ,
-    /// triple
-    @lengthOf( body ) u64 u ,// packet A { u8 x, }
+string u128 //
+`u8 x,`, @leftPad( ' ' ) char[ 1 ] repeatCount@calculatedFrom( //x
+""\n"" ) `doc`,
+    o
+,
+falsey
+    leftPad,@calculatedFrom(""a\""b"") @leftPad
+    ('0' )
+//
+// " ++ [27880; 37322]%N ++ runes_of_ascii "
+roots	{
+u8
+zchar @lengthOf(	Logon ) // trailing space 
+,
+// c
+//	t
+} , }")).
+Eval vm_compute in ("<<<M203>>>" ++ check (runes_of_ascii "/// triple
+packet Logon
+{ char[
+1
+    ] T // packet A { u8 x, }
+,repeat f32a{ repeat
+    options1 , //x
+zchar[ 007
+    ]Z9_
+    ,  u64 packetx, // @lengthOf(
+charz  ,
+} ,crc  Packet ,
+@lengthOf( charz //x
+) @leftPad (
+    ' ' ) float64 i8i8`{ , }`
+//	t
+//x
+, }
+MetaData // a // b
+a1  {
+    u8 len  `say ""hi""` ,
+len Logon //x
+`` ,char[] pack
+,
+    char
+    body, }
+")).
+Eval vm_compute in ("<<<M1589>>>" ++ check (runes_of_ascii "  options
+
+    {LittleEndian 
+=
+true ;	} packet
+	Logon { u8
+	x, 
+}
+packet Logout{u16 reason	,
+
+    }
+	root
+
+packet
+
+    Frame
+    {i32
+	Kind
+,
+i32
+
+    Kind2
+,
+match
+
+    Kind	as
+
+    Body
+{
+1
+
+:
+
+    Logon
+
+, [ 2
+,	3
+	, 
+4
+
+]	:Logout
+, 100: Logon 
+, },	match Kind2  as Trailer  { 0 
+: Logout ,
+	}
+    , 
 }
 
 ")).
-Eval vm_compute in ("<<<M3463>>>" ++ check (runes_of_ascii "root packet
-    // c1
-P {
-    // c3
-repeat string ss , // c7
-repeat // c8
-u16 // c9
-ns
-    // c10
-, } // c12
-")).
-Eval vm_compute in ("<<<M4105>>>" ++ check (runes_of_ascii "
-packet	o {@tag(	42
-)
-    // c
-	repeat
-
-    x { char[ 0123456789 ] i64_	,
-
-    }
+Eval vm_compute in ("<<<M1250>>>" ++ check (runes_of_ascii "packet calculatedFrom // c1
+{ @tag( // c3a
+  // c3b
+4294967296 // c4
+) // c5
+u // c6a
+  // c6b
+msg_type
+    // c7
 ,
-	}options{
-    }")).
-Eval vm_compute in ("<<<M3029>>>" ++ check (runes_of_ascii "packet A {
+    // c8
+char[ // c9
+3
+    // c10
+]
+    // c11
+crc
+    // c12
+@lengthOf( // c13a
+  // c13b
+len // c14a
+  // c14b
+) // c15a
+  // c15b
+`u8 x,`
+    // c16
+, // c17
+}
+    // c18
+")).
+Eval vm_compute in ("<<<M1366>>>" ++ check (runes_of_ascii "// top
+options // c0a
+  // c0b
+{ LittleEndian = // c3a
+  // c3b
+true ; // c5a
+  // c5b
+} // c6
+root
+    // c7
+packet P
+    // c9
+{ u16
+    // c11
+a , u32 // c14a
+  // c14b
+Sum @calculatedFrom( // c16a
+  // c16b
+""CRC32"" // c17
+) , // c19
+} // c20a
+  // c20b
+")).
+Eval vm_compute in ("<<<M499>>>" ++ check (runes_of_ascii "options
+{
+matchKey = 42/// triple
+x='0' ;
+// packet A { u8 x, }
+//
+charz
+=
+// packet A { u8 x, }
+// trailing space 
+true  ; } MetaData BodyLength
+{
+uint8
+pack,zchar[ 1@calculatedFrom(float ,  float32 x_y_z `` ,u32
+_x,i16 body  , }
+")).
+Eval vm_compute in ("<<<M257>>>" ++ check (runes_of_ascii "packet
+float { f64 float `u8 x,` ,
+// " ++ [27880; 37322]%N ++ runes_of_ascii "
+//	t
+@tag(
+1 )len tag `crlf
+line`
+, } root packet u	{ o x `it's` , @rightPad
+    ( ) repeat zchar[
+00]	Foo ,
+    // trailing space 
+    }root
+packet// `tick` ""quote"" 'q'
+string_{}
+
+")).
+Eval vm_compute in ("<<<M447>>>" ++ check (runes_of_ascii "options
+{
+matchKey = 42/// triple
+x='0' ;
+// packet A { u8 x, }
+//
+charz
+=
+// packet A { u8 x, }
+// trailing space 
+true  ; ; } MetaData BodyLength
+{
+uint8
+pack,zchar[ 1]float ,  float32 x_y_z `` ,u32
+_x,i16 body  , }
+")).
+Eval vm_compute in ("<<<M576>>>" ++ check (runes_of_ascii "options
+{
+matchKey = 42/// triple
+x='0' ;
+// packet A { u8 x, }
+//
+charz
+=
+// packet A { u8 x, }
+// trailing space 
+true  ; } MetaData BodyLength
+{
+uint8
+pack,zchar[ 1]float ,  float32 x_y_z @`` ,u32
+_x,i16 body  , }
+")).
+Eval vm_compute in ("<<<M519>>>" ++ check (runes_of_ascii "options
+{
+matchKey = 42/// triple
+x='0' ;
+// packet A { u8 x, }
+//
+charz
+=
+// packet A { u8 x, }
+// trailing space 
+true  ; } MetaData BodyLength
+{
+uint8
+pack,zchar[ 1]float ,  float32 match `` ,u32
+_x,i16 body  , }
+")).
+Eval vm_compute in ("<<<M444>>>" ++ check (runes_of_ascii "options
+{
+matchKey = 42/// triple
+x='0' ;
+// packet A { u8 x, }
+//
+charz
+=
+// packet A { u8 x, }
+// trailing space 
+}  ; } MetaData BodyLength
+{
+uint8
+pack,zchar[ 1]float ,  float32 x_y_z `` ,u32
+_x,i16 body  , }
+")).
+Eval vm_compute in ("<<<M27>>>" ++ check (runes_of_ascii "packet
+    MetaDataX {
+    match Header as // a // b
+zchar { 0
+: pack	[ 42
+// packet A { u8 x, }
+// c
+,	65535 ]
+:
+crc } , // @lengthOf(
+@tag(
+    1 )@rightPad (' ' // " ++ [27880; 37322]%N ++ runes_of_ascii "
+)
+int64  Foo, } // packet A { u8 x, }")).
+Eval vm_compute in ("<<<M1345>>>" ++ check (runes_of_ascii "// top
+root // c0
+packet // c1
+P
+    // c2
+{ hdr
+    // c4
+{ // c5
+u8 // c6
+a
+    // c7
+, // c8a
+  // c8b
+} // c9a
+  // c9b
+, // c10
+u8 // c11a
+  // c11b
+x // c12a
+  // c12b
+, // c13
+} // c14
+")).
+Eval vm_compute in ("<<<M1423>>>" ++ check (runes_of_ascii "
+
+  packet
+
+u128 { u8	a 
+,}
+root
+packet Msg 
+{	u8
+	k
+, u24 {
+
+    u8 Hi	,  u16
+Lo
+    , 
+} ,
+repeat i24
+{
+
+    u32
+q
+    ,}
+	,
+    u128
+
+    , u16
+	float32x
+	,string
+s
+
+, }
+
+")).
+Eval vm_compute in ("<<<M707>>>" ++ check (runes_of_ascii "// c
+packet i64_ {	char[] calculatedFrom  } packet
+trueish  {@calculatedFrom(
+""a\\"" ) o { i32 falsey@lengthOf( uint8x ),
+} , } // `tick` ""quote"" 'q'
+options {// c
+Z9_ = ' '//
+}
+")).
+Eval vm_compute in ("<<<M295>>>" ++ check (runes_of_ascii "options{zchar
+=7 ;
+// c
+// packet A { u8 x, }
+msg_type =	uint8 falsey =	1 ;
+}
+    MetaData  Pad// @lengthOf(
+{ f64	u `tab	here`
+,// a // b
+}	options {
+    }
+// " ++ [128512]%N ++ runes_of_ascii " emoji
+")).
+Eval vm_compute in ("<<<M1793>>>" ++ check (runes_of_ascii "packet A {
     Inner {
         u8 x `a
-
-b`,
+            b
+          c`,
         Deep {
             u8 y `a
-
-b`,
+                b
+              c`,
         },
     },
 }")).
-Eval vm_compute in ("<<<M3369>>>" ++ check (runes_of_ascii "packet calculatedFrom { @tag( 4294967296 ) u msg_type , char[ 3 ] crc @lengthOf( len ) // c
-`u8 x,` , }")).
-Eval vm_compute in ("<<<M2981>>>" ++ check (runes_of_ascii "packet A {
-  match k as n {
-    [1, ""bb"", 007, ""d"", 5, ""f"", 7, ""h"", 9, ""j"", 11] : B
-    2 : C
-  },
-}")).
-Eval vm_compute in ("<<<M2960>>>" ++ check (runes_of_ascii "packet A {
-  match k as n {
-    [""a"", ""bb"", 007, ""d"", ""e"", 66, ""g"", ""h"", 9] : B,
-    2 : C
-  },
-}")).
-Eval vm_compute in ("<<<M2624>>>" ++ check (runes_of_ascii "packet A { @rightPad(' ') @lengthOf(b) @calculatedFrom(""c"") @tag(007) match k as n { 1 : B }, }")).
-Eval vm_compute in ("<<<M3245>>>" ++ check (runes_of_ascii "packet Logon { @tag( 42 ) @rightPad ( ' ' ) @leftPad ( ) repeat trueish
-// c
-{ string T , } , }")).
-Eval vm_compute in ("<<<M2972>>>" ++ check (runes_of_ascii "packet A {
-  match k as n {
-    [1, 22, ""c c"", 4, 5, ""f"", 7, 8, ""i"", 10] : B
-    2 : C
-  },
-}")).
-Eval vm_compute in ("<<<M554>>>" ++ check (runes_of_ascii "options { metadata = 7
-    ;
-uint8x = 1 asx
-= char[ 10]
-Z9_	=' ';body
-=
-    ""abc"" ;
-    }")).
-Eval vm_compute in ("<<<M282>>>" ++ check (runes_of_ascii "MetaData charz {
-Pad tag `two words` ,
-    u32 matchKey ,u128 Foo ,
-char[ 255 ] body ,}
-")).
-Eval vm_compute in ("<<<M4080>>>" ++ check (runes_of_ascii "packet
-
-    A
-
-{
-match
-k
-
-    as
-	n {
-
-[""a"",
-""bb""
+Eval vm_compute in ("<<<M10>>>" ++ check (runes_of_ascii "MetaData
+    chars{
+char[]Header `say ""hi""`
 ,
-	""c c"" ] :B,
-    2	:
-C  },
-} ")).
-Eval vm_compute in ("<<<M1974>>>" ++ check (runes_of_ascii "root
-packet crc
-    ; f32a @calculatedFrom( """ ++ [233]%N ++ runes_of_ascii "t" ++ [233]%N ++ runes_of_ascii """ )
-    `say ""hi""`, lengthOf `` ,  }")).
-Eval vm_compute in ("<<<M2951>>>" ++ check (runes_of_ascii "packet A {
-  match k as n {
-    [1, 22, 007, 4, 5, 66, 7, 8, 9] : B
-    2 : C
-  },
-}")).
-Eval vm_compute in ("<<<M3333>>>" ++ check (runes_of_ascii "packet o { @tag( 42 ) repeat x { char[ 0123456789 ] i64_ , } , } options { }
-// c
+    char[] matchKey
+,char[ 1
+    ]  u8x , zchar A ,x falsey
+,
+zchar[ 42
+    ] calculatedFrom , }
 ")).
-Eval vm_compute in ("<<<M3312>>>" ++ check (runes_of_ascii "packet o { @tag( 42 ) repeat x { char[ // c
-0123456789 ] i64_ , } , } options { }")).
-Eval vm_compute in ("<<<M2046>>>" ++ check (runes_of_ascii "root
-packet crc
-    { f32a @calculatedFrom( """ ++ [233]%N ++ runes_of_ascii "t" ++ [233]%N ++ runes_of_ascii """ )
-    `say ""hi""`, a" ++ [769]%N ++ runes_of_ascii "b `` ,  }")).
-Eval vm_compute in ("<<<M2693>>>" ++ check (runes_of_ascii "true i16 i8 007 ( `{ , }` matchKey u32 65535 packet packet '\x00' ""`tick`"" u64")).
-Eval vm_compute in ("<<<M2902>>>" ++ check (runes_of_ascii "packet A {
-  match k as n {
-    [1, ""bb"", 007, ""d"", 5] : B,
-    2 : C
-  },
-}")).
-Eval vm_compute in ("<<<M41>>>" ++ check (runes_of_ascii "MetaData// " ++ [128512]%N ++ runes_of_ascii " emoji
-charz
-{zchar[
-    42] packetx
-    `crlf
-line` , } 	 ")).
-Eval vm_compute in ("<<<M2875>>>" ++ check (runes_of_ascii "packet A {
-  match k as n {
-    [""a"", ""bb"", ""c c""] : B
-    2 : C
-  },
-}")).
-Eval vm_compute in ("<<<M3404>>>" ++ check (runes_of_ascii "MetaData _x { zchar[ 4294967296
+Eval vm_compute in ("<<<M143>>>" ++ check (runes_of_ascii "options { msg_type = 00 string_ =
+// `tick` ""quote"" 'q'
 // c
-] lengthOf `// not a comment` , }")).
-Eval vm_compute in ("<<<M884>>>" ++ check (runes_of_ascii "packet trueish { repeat rootA
-    // " ++ [128512]%N ++ runes_of_ascii " emoji
-    ,i64_
-lengthOf,
+0 x
+=
+zchar[
+255 ] ;leftPad =false ;f32a // @lengthOf(
+=
+007 ; // " ++ [27880; 37322]%N ++ runes_of_ascii "
 }
 ")).
-Eval vm_compute in ("<<<M2206>>>" ++ check (runes_of_ascii "root
-    // `tick` ""quote"" 'q'
-    packet As { trueish P" ++ [127]%N ++ runes_of_ascii "acket , }
-")).
-Eval vm_compute in ("<<<M3870>>>" ++ check (runes_of_ascii "packet A {
-    match k as n {
-        1 : B,
-        // d
+Eval vm_compute in ("<<<M460>>>" ++ check (runes_of_ascii "options
+{
+matchKey = 42/// triple
+x='0' ;
+// packet A { u8 x, }
+//
+charz
+=
+// packet A { u8 x, }
+// trailing space 
+true  ; }")).
+Eval vm_compute in ("<<<M602>>>" ++ check (runes_of_ascii "MetaData
+    // trailing space 
+    matchKey
+{ u64 u64 chars // a // b
+,char[] lengthOf `// not a comment`
+    , //	t
+}")).
+Eval vm_compute in ("<<<M609>>>" ++ check (runes_of_ascii "MetaData
+    // trailing space 
+    matchKey
+{ u64 repeat // a // b
+,char[] lengthOf `// not a comment`
+    , //	t
+}")).
+Eval vm_compute in ("<<<M937>>>" ++ check (runes_of_ascii "packet A {
+    Inner {
+        u8 x `a
+    b
+  c`,
+        Deep {
+            u8 y `a
+    b
+  c`,
+        },
     },
 }")).
-Eval vm_compute in ("<<<M496>>>" ++ check (runes_of_ascii "packet T{	}
-root
-packet crc // `tick` ""quote"" 'q'
-{ u8 Z9_, }")).
-Eval vm_compute in ("<<<M2726>>>" ++ check (runes_of_ascii "@lengthOf( i16 } i16 packet rootA = false packet , u32 """ ++ [28040; 24687]%N ++ runes_of_ascii """ {")).
-Eval vm_compute in ("<<<M3176>>>" ++ check (runes_of_ascii "packet A { @leftPad() char[4] x, @rightPad( ) zchar[2] y, }")).
-Eval vm_compute in ("<<<M1943>>>" ++ check (runes_of_ascii "
-packet	As { @calculatedFrom(//x
-""{,}""	)# lengthOf , } 	 ")).
-Eval vm_compute in ("<<<M29>>>" ++ check (runes_of_ascii "packet chars// packet A { u8 x, }
-{} packet u {
-}
-//	t
+Eval vm_compute in ("<<<M619>>>" ++ check (runes_of_ascii "MetaData
+    // trailing space 
+    matchKey
+{ u64 chars // a // b
+,i16 lengthOf `// not a comment`
+    , //	t
+}")).
+Eval vm_compute in ("<<<M591>>>" ++ check (runes_of_ascii "MetaData
+    // trailing space 
+    
+{ u64 chars // a // b
+,char[] lengthOf `// not a comment`
+    , //	t
+}")).
+Eval vm_compute in ("<<<M908>>>" ++ check (runes_of_ascii "packet A {
+  match k as n {
+    [1, ""bb"", 007, ""d"", 5, ""f"", 7, ""h"", 9, ""j"", 11, ""l""] : B
+    2 : C
+  },
+}")).
+Eval vm_compute in ("<<<M1268>>>" ++ check (runes_of_ascii "packet calculatedFrom { @tag( 4294967296 ) u msg_type
+// c
+, char[ 3 ] crc @lengthOf( len ) `u8 x,` , }")).
+Eval vm_compute in ("<<<M867>>>" ++ check (runes_of_ascii "packet A {
+  match k as n {
+    [""a"", ""bb"", ""c c"", ""d"", ""e"", ""f"", ""g"", ""h"", ""i""] : B
+    2 : C
+  },
+}")).
+Eval vm_compute in ("<<<M1636>>>" ++ check (runes_of_ascii "// c
+      packet o
+    {
+
+@tag( 
+42 )	repeat x
+	{char[
+
+0123456789]
+	i64_	, 
+} 
+, }options	{
+	}
 ")).
-Eval vm_compute in ("<<<M1900>>>" ++ check (runes_of_ascii "
-packet	 { @calculatedFrom(//x
-""{,}""	)lengthOf , } 	 ")).
-Eval vm_compute in ("<<<M1745>>>" ++ check (runes_of_ascii "options uint32 }options {  } // `tick` ""quote"" 'q'")).
-Eval vm_compute in ("<<<M2415>>>" ++ check (runes_of_ascii "MetaData A
-{
-i64
-chars	, } // `tick` ""qu?ote"" 'q'")).
-Eval vm_compute in ("<<<M1748>>>" ++ check (runes_of_ascii "options { } }options {  } // `tick` ""quote"" 'q'")).
-Eval vm_compute in ("<<<M1772>>>" ++ check (runes_of_ascii "options { }options {  } // `tick` ""quote"" " ++ [65279]%N ++ runes_of_ascii "'q'")).
-Eval vm_compute in ("<<<M4056>>>" ++ check (runes_of_ascii "packet A {
+Eval vm_compute in ("<<<M1146>>>" ++ check (runes_of_ascii "packet Logon { @tag( 42 ) @rightPad ( ' ' // c
+) @leftPad ( ) repeat trueish { string T , } , }")).
+Eval vm_compute in ("<<<M861>>>" ++ check (runes_of_ascii "packet A {
+  match k as n {
+    [""a"", ""bb"", 007, ""d"", ""e"", 66, ""g"", ""h""] : B,
+    2 : C
+  },
+}")).
+Eval vm_compute in ("<<<M1986>>>" ++ check (runes_of_ascii "packet A {
+    B b `a
+    
+    b`,
+    B `a
+    
+    b`,
+    repeat B bs `a
+    
+    b`,
+}")).
+Eval vm_compute in ("<<<M1779>>>" ++ check (runes_of_ascii "packet A {
+    Inner {
+        match k as n {
+            [1] : B,
+        },
+    },
+}")).
+Eval vm_compute in ("<<<M1246>>>" ++ check (runes_of_ascii "packet o { @tag( 42 ) repeat x { char[ 0123456789 ] i64_ , } , } options { } // c
+")).
+Eval vm_compute in ("<<<M1229>>>" ++ check (runes_of_ascii "packet o { @tag( 42 ) repeat x { char[ 0123456789
+// c
+] i64_ , } , } options { }")).
+Eval vm_compute in ("<<<M1824>>>" ++ check (runes_of_ascii "MetaData matchKey {
+    u64 chars,
+    char[] lengthOf `// not a comment`,//	t
+}")).
+Eval vm_compute in ("<<<M201>>>" ++ check (runes_of_ascii "packet A { Logon {
+    repeat  char[ 42 ]falsey `a\`  ,repeat int32 T , } ,}")).
+Eval vm_compute in ("<<<M804>>>" ++ check (runes_of_ascii "packet A {
+  match k as n {
+    [1, ""bb"", 007, ""d""] : B
+    2 : C
+  },
+}")).
+Eval vm_compute in ("<<<M1311>>>" ++ check (runes_of_ascii "MetaData _x // c
+{ zchar[ 4294967296 ] lengthOf `// not a comment` , }")).
+Eval vm_compute in ("<<<M791>>>" ++ check (runes_of_ascii "packet A {
+  match k as n {
+    [1, ""bb"", 007] : B
+    2 : C
+  },
+}")).
+Eval vm_compute in ("<<<M16>>>" ++ check (runes_of_ascii "MetaData
+    stringy
+{ char[ 0] chars// @lengthOf(
+`{ , }` , }")).
+Eval vm_compute in ("<<<M1682>>>" ++ check (runes_of_ascii "packet
+A { 
+match k as  n {1 :
+B
+	, 
+
+    // c
+  } ,  }
+
+")).
+Eval vm_compute in ("<<<M1291>>>" ++ check (runes_of_ascii "// top
+packet // c0
+lengthOf // c1
+{ // c2
+} // c3
+")).
+Eval vm_compute in ("<<<M1691>>>" ++ check (runes_of_ascii "root packet A {
     u8 x `a
-        
         b`,
 }")).
-Eval vm_compute in ("<<<M2741>>>" ++ check (runes_of_ascii ": f32 false string u32 ; `crlf
-line` ""{,}""")).
-Eval vm_compute in ("<<<M2127>>>" ++ check (runes_of_ascii "MetaData x
-{// " ++ [128512]%N ++ runes_of_ascii " emoji
-i16 stringy root }")).
-Eval vm_compute in ("<<<M2607>>>" ++ check (runes_of_ascii "packet A { match k as n { [1 2] : B }, }")).
-Eval vm_compute in ("<<<M4525>>>" ++ check (runes_of_ascii "
+Eval vm_compute in ("<<<M1375>>>" ++ check (runes_of_ascii "
 
-  options  { string_ 
-= //	t
-		007
-	}")).
-Eval vm_compute in ("<<<M2121>>>" ++ check (runes_of_ascii "MetaData x
-{// " ++ [128512]%N ++ runes_of_ascii " emoji
-i16 , stringy }")).
-Eval vm_compute in ("<<<M2669>>>" ++ check (runes_of_ascii "options { a = 1; } options { a = 1; }")).
-Eval vm_compute in ("<<<M2114>>>" ++ check (runes_of_ascii "MetaData x
-{// " ++ [128512]%N ++ runes_of_ascii " emoji
- stringy , }")).
-Eval vm_compute in ("<<<M2048>>>" ++ check (runes_of_ascii "MetaData MetaData A { u64 pack, }")).
-Eval vm_compute in ("<<<M4463>>>" ++ check (runes_of_ascii "packet A {
-    u8 x `d" ++ [133]%N ++ runes_of_ascii "`,// c" ++ [133]%N ++ runes_of_ascii "
-}")).
-Eval vm_compute in ("<<<M2842>>>" ++ check (runes_of_ascii "f(ukmpH3;(""_fVi)^D86>RRY !%8T?")).
-Eval vm_compute in ("<<<M2725>>>" ++ check (runes_of_ascii ", packet as MetaData ] int8 (")).
-Eval vm_compute in ("<<<M266>>>" ++ check (runes_of_ascii "options
-{Packet=
-char[] }")).
-Eval vm_compute in ("<<<M2057>>>" ++ check (runes_of_ascii "MetaData A { { u64 pack, }")).
-Eval vm_compute in ("<<<M2097>>>" ++ check (runes_of_ascii "MetaData A { |u64 pack, }")).
-Eval vm_compute in ("<<<M2068>>>" ++ check (runes_of_ascii "MetaData A { u64 ,pack }")).
-Eval vm_compute in ("<<<M127>>>" ++ check (runes_of_ascii "packet Foo{/// triple
-}")).
-Eval vm_compute in ("<<<M1218>>>" ++ check (runes_of_ascii "packet
-    Packet {
+  root 
+packet	P{
+	string	s,
+
+    } ")).
+Eval vm_compute in ("<<<M1498>>>" ++ check (runes_of_ascii "packet
+A 
+{ u8
+x
+
+`d" ++ [12288]%N ++ runes_of_ascii "`, // c" ++ [12288]%N ++ runes_of_ascii "
 }
 ")).
-Eval vm_compute in ("<<<M2821>>>" ++ check (runes_of_ascii "as u32 , ) as options")).
-Eval vm_compute in ("<<<M538>>>" ++ check (runes_of_ascii "options{
-    } //	t")).
-Eval vm_compute in ("<<<M567>>>" ++ check (runes_of_ascii "root packet a1 { }")).
-Eval vm_compute in ("<<<M3092>>>" ++ check (runes_of_ascii "// c" ++ [8202]%N ++ runes_of_ascii "
-packet A {
-}")).
-Eval vm_compute in ("<<<M2630>>>" ++ check (runes_of_ascii "packet A { } root")).
-Eval vm_compute in ("<<<M912>>>" ++ check (runes_of_ascii "//
-packet crc{ }")).
-Eval vm_compute in ("<<<M3156>>>" ++ check (runes_of_ascii "packet A {
-}
-
-
+Eval vm_compute in ("<<<M289>>>" ++ check (runes_of_ascii "options
+    // " ++ [128512]%N ++ runes_of_ascii " emoji
+    { }
 ")).
-Eval vm_compute in ("<<<M2118>>>" ++ check (runes_of_ascii "MetaData x
-{")).
-Eval vm_compute in ("<<<M2691>>>" ++ check ([65533; 65533]%N ++ runes_of_ascii "m" ++ [65533; 65533]%N ++ runes_of_ascii "``" ++ [65533; 65533; 65533]%N)).
-Eval vm_compute in ("<<<M2459>>>" ++ check (runes_of_ascii "packets")).
-Eval vm_compute in ("<<<M38>>>" ++ check (runes_of_ascii "
- 	 ")).
-Eval vm_compute in ("<<<M3080>>>" ++ check (runes_of_ascii "// c" ++ [5760]%N)).
-Eval vm_compute in ("<<<M2523>>>" ++ check (runes_of_ascii "12ab")).
-Eval vm_compute in ("<<<M2531>>>" ++ check (runes_of_ascii "a_b")).
-Eval vm_compute in ("<<<M2553>>>" ++ check ([233]%N ++ runes_of_ascii "a")).
+Eval vm_compute in ("<<<M922>>>" ++ check (runes_of_ascii "packet A {
+    u8 x `a
+b`,
+}")).
+Eval vm_compute in ("<<<M1295>>>" ++ check (runes_of_ascii "
+// c
+packet lengthOf { }")).
+Eval vm_compute in ("<<<M227>>>" ++ check (runes_of_ascii " // packet A { u8 x, }")).
+Eval vm_compute in ("<<<M752>>>" ++ check ([65533]%N ++ runes_of_ascii "&" ++ [65533]%N ++ runes_of_ascii "	a" ++ [65533; 6]%N ++ runes_of_ascii "A" ++ [65533]%N ++ runes_of_ascii "N" ++ [65533; 65533]%N ++ runes_of_ascii "$" ++ [12; 65533]%N ++ runes_of_ascii "W" ++ [65533]%N ++ runes_of_ascii "?")).
+Eval vm_compute in ("<<<M1055>>>" ++ check (runes_of_ascii "packet A {
+}
+// c" ++ [6158]%N)).
+Eval vm_compute in ("<<<M640>>>" ++ check (runes_of_ascii "MetaData
+    // ")).
+Eval vm_compute in ("<<<M765>>>" ++ check (runes_of_ascii "Y,v&WC")).
+Eval vm_compute in ("<<<M724>>>" ++ check (runes_of_ascii " ")).
